@@ -1,76 +1,1393 @@
-//! C01 — the audio callback is real-time safe and its output well-formed: whole-manager scenes
-//! with every built-in effect and modulator and boundary values of every argument; per callback:
-//! outcome (ok / panic / hang), heap traffic on the audio thread, every sample finite in [-1,1],
-//! channel layout.  The output stage itself is compared bit-for-bit with the Coq model.
+//! C01 — the audio callback is real-time safe and its output well-formed.
+//!
+//! A *scene* is pure data (`Scene`): manager settings, main-track effects and a list of operations
+//! (play static / probe sounds, add sub / send / spatial tracks with every built-in effect, clocks,
+//! LFOs, tweeners, probe modulators, listeners, commands on random handles incl. effect handles,
+//! handle drops, device callbacks).  It is executed on the REAL kira code through the public API;
+//! the `Renderer` lives on a dedicated audio thread, so "on the audio thread" is literal:
+//!   * heap allocations / frees are counted on that thread while a callback runs,
+//!   * probe sounds / effects / modulators record the thread on which their `Drop` ran,
+//!   * a probe effect at the end of the main track records `on_start_processing` calls, the chunk
+//!     lengths and the mixer bus, which are compared with the Coq model (`C01/Run.v`).
+//! Monitors per callback: outcome (ok / panic / hang by watchdog), heap traffic, `Drop` thread,
+//! every sample written, finite, in [-1, 1], extra channels silent, chunk sequence.
+//!
+//! Attribution of a failure to a known finding is COUNTERFACTUAL: the scene must contain the
+//! finding's trigger (a predicate on the scene data, see `classes()`), the observed failure must be
+//! the listed one, and re-running the scene with exactly that trigger replaced by a benign value
+//! must make the failure disappear.  A failure that survives the removal of every listed trigger
+//! is reported unattributed (VIOLATION), on the neutralised and minimised scene.
 use crate::alloc::counted;
 use crate::backend::*;
 use crate::util::*;
-use kira::clock::{ClockHandle, ClockSpeed};
-use kira::effect::compressor::CompressorBuilder;
-use kira::effect::delay::DelayBuilder;
-use kira::effect::distortion::{DistortionBuilder, DistortionKind};
-use kira::effect::eq_filter::{EqFilterBuilder, EqFilterKind};
-use kira::effect::filter::{FilterBuilder, FilterMode};
+use kira::backend::Renderer;
+use kira::clock::{ClockHandle, ClockSpeed, ClockTime};
+use kira::effect::compressor::{CompressorBuilder, CompressorHandle};
+use kira::effect::delay::{DelayBuilder, DelayHandle};
+use kira::effect::distortion::{DistortionBuilder, DistortionHandle, DistortionKind};
+use kira::effect::eq_filter::{EqFilterBuilder, EqFilterHandle, EqFilterKind};
+use kira::effect::filter::{FilterBuilder, FilterHandle, FilterMode};
 use kira::effect::panning_control::PanningControlBuilder;
-use kira::effect::reverb::ReverbBuilder;
+use kira::effect::reverb::{ReverbBuilder, ReverbHandle};
 use kira::effect::volume_control::VolumeControlBuilder;
+use kira::effect::{Effect, EffectBuilder};
+use kira::info::Info;
 use kira::listener::ListenerHandle;
 use kira::modulator::lfo::{LfoBuilder, LfoHandle, Waveform};
 use kira::modulator::tweener::{TweenerBuilder, TweenerHandle};
+use kira::modulator::{Modulator, ModulatorBuilder, ModulatorId};
 use kira::sound::static_sound::{StaticSoundHandle, StaticSoundSettings};
-use kira::sound::{PlaybackPosition, Region};
+use kira::sound::{PlaybackPosition, Region, Sound, SoundData};
 use kira::track::{MainTrackBuilder, SendTrackBuilder, SendTrackHandle, SpatialTrackBuilder, SpatialTrackHandle, TrackBuilder, TrackHandle};
 use kira::{Capacities, Decibels, Easing, Frame, Mapping, Mix, Panning, PlaybackRate, StartTime, Tween, Value};
-use std::sync::mpsc;
+use std::collections::BTreeSet;
+use std::sync::atomic::{AtomicU32, AtomicUsize, Ordering};
+use std::sync::{mpsc, Arc, Mutex};
+use std::thread::ThreadId;
 use std::time::Duration;
 
-/// classes of known findings a scene may have been seeded with (see known_findings.json)
+/// classes of known findings (see known_findings.json); each has a trigger predicate and a
+/// neutraliser in `classes()`
 const HZ_GAIN: &str = "gain_amplitude_overflow";
 const HZ_CLOCK: &str = "clock_speed_tick_loop_diverges";
 const HZ_RATE: &str = "playback_rate_loop_diverges";
 const HZ_SAMPLES: &str = "source_samples_overflow_interpolation";
 const HZ_PARAM: &str = "effect_parameter_outside_documented_range";
 const HZ_RATE_COST: &str = "playback_rate_cost_unbounded";
+const HZ_EASING: &str = "easing_power_negative";
+const HZ_CHAIN: &str = "gain_chain_overflow";
+const HZ_COMP_THR: &str = "compressor_threshold_infinite_f32";
+const HZ_EQ_GAIN: &str = "eq_gain_underflow";
 
-enum Msg {
-	Note(String),
-	Hazard(&'static str),
-	Done(SceneResult),
+// ------------------------------------------------------------------------------------------------
+// scene description (pure data)
+// ------------------------------------------------------------------------------------------------
+#[derive(Clone, Debug, PartialEq)]
+enum St {
+	Immediate,
+	Delayed(Duration),
+	/// ClockTime { ticks } of the sel-th clock handle alive (Immediate if there is none)
+	Clock { sel: u64, ticks: u64 },
 }
-struct Gen<'a> {
-	tx: Option<mpsc::Sender<Msg>>,
-	r: &'a mut Rng,
-	boundary: bool,
-	hazards: Vec<&'static str>,
-	allow_hang: bool,
-	log: Vec<String>,
+#[derive(Clone, Debug, PartialEq)]
+struct Tw {
+	st: St,
+	dur: Duration,
+	easing: Easing,
 }
-impl<'a> Gen<'a> {
-	fn note(&mut self, s: String) {
-		if crate::alloc::TRACE.load(std::sync::atomic::Ordering::Relaxed) {
-			eprintln!("NOTE {s}");
-		}
-		if self.log.len() < 400 {
-			if let Some(tx) = &self.tx {
-				let _ = tx.send(Msg::Note(s.clone()));
-			}
-			self.log.push(s);
+#[derive(Clone, Debug, PartialEq)]
+enum Fx {
+	Filter { mode: FilterMode, cutoff: f64, linked: bool, res: f64, mix: f32 },
+	Eq { kind: EqFilterKind, f: f64, gain: f32, q: f64 },
+	Delay { time: Duration, fb: f32, mix: f32, fbfx: Option<(f64, f64)> },
+	Reverb { fb: f64, damp: f64, width: f64, mix: f32 },
+	Compressor { thr: f64, ratio: f64, attack: Duration, release: Duration, makeup: f32, mix: f32 },
+	Distortion { kind: DistortionKind, drive: f32, mix: f32 },
+	Volume(f32),
+	Pan(f32),
+	/// pass-through probe effect whose `Drop` records its thread
+	Probe,
+}
+/// frames of a static sound: kind 0 uniform in [-1,1]; 1 ones; 2 alternating +-1; 3 sine; 4 denormal;
+/// 5 +-8; 6 +-3e38 alternating; 7 zeros; 8 ramp through zero
+#[derive(Clone, Debug, PartialEq)]
+struct FramesSpec {
+	n: usize,
+	kind: u8,
+	seed: u64,
+}
+impl FramesSpec {
+	fn expand(&self) -> Vec<Frame> {
+		let mut r = Rng::new(self.seed);
+		(0..self.n)
+			.map(|i| {
+				let x = match self.kind {
+					0 => (r.unit_f64() * 2.0 - 1.0) as f32,
+					1 => 1.0,
+					2 => if i % 2 == 0 { 1.0 } else { -1.0 },
+					3 => ((i as f32) * 0.1).sin(),
+					4 => 1e-40,
+					5 => if r.chance(1, 2) { 8.0 } else { -8.0 },
+					6 => if i % 2 == 0 { 3e38 } else { -3e38 },
+					7 => 0.0,
+					_ => (i as f32 - (self.n / 2) as f32) / 16.0,
+				};
+				Frame::new(x, if r.chance(1, 4) { -x } else { x })
+			})
+			.collect()
+	}
+	fn max_abs(&self) -> f32 {
+		match self.kind {
+			6 => 3e38,
+			5 => 8.0,
+			8 => self.n as f32 / 16.0,
+			7 => 0.0,
+			_ => 1.0,
 		}
 	}
-	fn hazard(&mut self, h: &'static str) {
-		if !self.hazards.contains(&h) {
-			if let Some(tx) = &self.tx {
-				let _ = tx.send(Msg::Hazard(h));
-			}
-			self.hazards.push(h);
+}
+#[derive(Clone, Debug, PartialEq)]
+struct PlaySpec {
+	frames: FramesSpec,
+	ssr: u32,
+	vol: f32,
+	pan: f32,
+	rate: f64,
+	reverse: bool,
+	looped: Option<(f64, f64)>,
+	start: Option<usize>,
+	fade_in: Option<Tw>,
+	start_time: St,
+	slice: Option<(usize, usize)>,
+	/// None: main track; Some(sel): the sel-th sub track handle alive (main if none)
+	on: Option<u64>,
+}
+#[derive(Clone, Debug, PartialEq)]
+struct SubSpec {
+	vol: f32,
+	cap: usize,
+	sub_cap: usize,
+	persist: bool,
+	fx: Vec<Fx>,
+	/// keep the effect handles (commands on them later)
+	keep_fx_handles: bool,
+	send: Option<f32>,
+	parent: Option<u64>,
+}
+#[derive(Clone, Debug, PartialEq)]
+struct CmdSpec {
+	sel: u64,
+	which: u64,
+	tw: Tw,
+	db: f32,
+	rate: f64,
+	pan: f32,
+	u: f64,
+	mixv: f32,
+	speed: ClockSpeed,
+	freq: f64,
+	pos: [f32; 3],
+}
+#[derive(Clone, Debug, PartialEq)]
+enum Op {
+	Play(PlaySpec),
+	/// user-defined `Sound` that is finished after `len` frames; its `Drop` records the thread
+	PlayProbe { len: u64, on: Option<u64> },
+	AddSub(SubSpec),
+	AddSend { vol: f32, probe: bool },
+	AddClock { speed: ClockSpeed, start: bool },
+	AddLfo { wave: u8, f: f64, amp: f64, offset: f64, phase: f64 },
+	AddTweener { init: f64 },
+	/// user-defined `Modulator` that is finished after `len` updates
+	AddProbeMod { len: u64 },
+	AddListener { pos: [f32; 3] },
+	AddSpatial { pos: [f32; 3], d0: f32, d1: f32, strength: f32, atten: Option<Easing>, frames: FramesSpec, vol: f32 },
+	Cmd(CmdSpec),
+	DropHandle { sel: u64 },
+	Callback { frames: usize, ch: u16 },
+}
+#[derive(Clone, Debug, PartialEq)]
+struct Scene {
+	sr: u32,
+	ibs: usize,
+	caps: [usize; 5],
+	main_vol: f32,
+	main_cap: usize,
+	main_fx: Vec<Fx>,
+	ops: Vec<Op>,
+}
+
+// ------------------------------------------------------------------------------------------------
+// probes (ordinary user code: public Effect / Sound / Modulator traits)
+// ------------------------------------------------------------------------------------------------
+const CHUNK_LOG: usize = 1024;
+const BUS_LOG: usize = 64;
+struct ProbeLog {
+	starts: AtomicUsize,
+	nchunks: AtomicUsize,
+	chunk_len: Vec<AtomicU32>,
+	nbus: AtomicUsize,
+	bus: Vec<(AtomicU32, AtomicU32)>,
+	drops: Mutex<Vec<(&'static str, ThreadId)>>,
+}
+impl ProbeLog {
+	fn new() -> Arc<Self> {
+		Arc::new(ProbeLog {
+			starts: AtomicUsize::new(0),
+			nchunks: AtomicUsize::new(0),
+			chunk_len: (0..CHUNK_LOG).map(|_| AtomicU32::new(0)).collect(),
+			nbus: AtomicUsize::new(0),
+			bus: (0..BUS_LOG).map(|_| (AtomicU32::new(0), AtomicU32::new(0))).collect(),
+			drops: Mutex::new(Vec::with_capacity(256)),
+		})
+	}
+	fn reset(&self) {
+		self.starts.store(0, Ordering::SeqCst);
+		self.nchunks.store(0, Ordering::SeqCst);
+		self.nbus.store(0, Ordering::SeqCst);
+	}
+	fn dropped(&self, what: &'static str) {
+		if let Ok(mut d) = self.drops.lock() {
+			d.push((what, std::thread::current().id()));
 		}
+	}
+}
+/// last effect of the main track: records on_start_processing calls, chunk lengths and the bus
+struct MainProbe(Arc<ProbeLog>);
+impl Effect for MainProbe {
+	fn on_start_processing(&mut self) {
+		self.0.starts.fetch_add(1, Ordering::SeqCst);
+	}
+	fn process(&mut self, input: &mut [Frame], _dt: f64, _info: &Info) {
+		let k = self.0.nchunks.fetch_add(1, Ordering::SeqCst);
+		if k < CHUNK_LOG {
+			self.0.chunk_len[k].store(input.len() as u32, Ordering::SeqCst);
+		}
+		for f in input.iter() {
+			let j = self.0.nbus.fetch_add(1, Ordering::SeqCst);
+			if j < BUS_LOG {
+				self.0.bus[j].0.store(f.left.to_bits(), Ordering::SeqCst);
+				self.0.bus[j].1.store(f.right.to_bits(), Ordering::SeqCst);
+			}
+		}
+	}
+}
+struct FxProbe(Arc<ProbeLog>);
+impl Effect for FxProbe {
+	fn process(&mut self, _input: &mut [Frame], _dt: f64, _info: &Info) {}
+}
+impl Drop for FxProbe {
+	fn drop(&mut self) {
+		self.0.dropped("probe effect");
+	}
+}
+struct SndProbe {
+	log: Arc<ProbeLog>,
+	left: u64,
+	/// heap data owned by the sound, so that dropping it is visible to the allocator as well
+	_payload: Vec<u8>,
+}
+impl Sound for SndProbe {
+	fn process(&mut self, out: &mut [Frame], _dt: f64, _info: &Info) {
+		for f in out.iter_mut() {
+			if self.left > 0 {
+				self.left -= 1;
+				*f = Frame::new(0.25, -0.125);
+			}
+		}
+	}
+	fn finished(&self) -> bool {
+		self.left == 0
+	}
+}
+impl Drop for SndProbe {
+	fn drop(&mut self) {
+		self.log.dropped("probe sound");
+	}
+}
+struct SndProbeData(SndProbe);
+impl SoundData for SndProbeData {
+	type Error = ();
+	type Handle = ();
+	fn into_sound(self) -> Result<(Box<dyn Sound>, ()), ()> {
+		Ok((Box::new(self.0), ()))
+	}
+}
+struct ModProbe {
+	log: Arc<ProbeLog>,
+	left: u64,
+}
+impl Modulator for ModProbe {
+	fn update(&mut self, _dt: f64, _info: &Info) {
+		self.left = self.left.saturating_sub(1);
+	}
+	fn value(&self) -> f64 {
+		0.5
+	}
+	fn finished(&self) -> bool {
+		self.left == 0
+	}
+}
+impl Drop for ModProbe {
+	fn drop(&mut self) {
+		self.log.dropped("probe modulator");
+	}
+}
+struct ModProbeBuilder(Arc<ProbeLog>, u64);
+impl ModulatorBuilder for ModProbeBuilder {
+	type Handle = ModulatorId;
+	fn build(self, id: ModulatorId) -> (Box<dyn Modulator>, ModulatorId) {
+		(Box::new(ModProbe { log: self.0, left: self.1 }), id)
+	}
+}
+
+// ------------------------------------------------------------------------------------------------
+// execution on the real code
+// ------------------------------------------------------------------------------------------------
+enum H {
+	Sound(StaticSoundHandle),
+	Track(TrackHandle),
+	Spatial(SpatialTrackHandle),
+	Send(SendTrackHandle),
+	Clock(ClockHandle),
+	Lfo(LfoHandle),
+	Tweener(TweenerHandle),
+	Listener(ListenerHandle),
+	FxFilter(FilterHandle),
+	FxEq(EqFilterHandle),
+	FxDelay(DelayHandle),
+	FxReverb(ReverbHandle),
+	FxComp(CompressorHandle),
+	FxDist(DistortionHandle),
+}
+
+fn clock_ids(hs: &[H]) -> Vec<kira::clock::ClockId> {
+	hs.iter().filter_map(|h| if let H::Clock(c) = h { Some(c.id()) } else { None }).collect()
+}
+fn start_time(st: &St, hs: &[H]) -> StartTime {
+	match st {
+		St::Immediate => StartTime::Immediate,
+		St::Delayed(d) => StartTime::Delayed(*d),
+		St::Clock { sel, ticks } => {
+			let ids = clock_ids(hs);
+			if ids.is_empty() {
+				StartTime::Immediate
+			} else {
+				StartTime::ClockTime(ClockTime { clock: ids[(*sel % ids.len() as u64) as usize], ticks: *ticks, fraction: 0.0 })
+			}
+		}
+	}
+}
+fn tween(tw: &Tw, hs: &[H]) -> Tween {
+	Tween { start_time: start_time(&tw.st, hs), duration: tw.dur, easing: tw.easing }
+}
+
+/// builds one effect; pushes its handle when `keep`
+fn build_fx(fx: &Fx, hs: &[H], log: &Arc<ProbeLog>, keep: Option<&mut Vec<H>>) -> Box<dyn Effect> {
+	let mut kept: Option<H> = None;
+	let e: Box<dyn Effect> = match fx {
+		Fx::Filter { mode, cutoff, linked, res, mix } => {
+			let lfo = hs.iter().find_map(|h| if let H::Lfo(l) = h { Some(l.id()) } else { None });
+			let c: Value<f64> = match (linked, lfo) {
+				(true, Some(id)) => Value::FromModulator { id, mapping: Mapping { input_range: (-1.0, 1.0), output_range: (100.0, 8000.0), easing: Easing::Linear } },
+				_ => Value::Fixed(*cutoff),
+			};
+			let (e, h) = FilterBuilder::new().mode(*mode).cutoff(c).resonance(*res).mix(Mix(*mix)).build();
+			kept = Some(H::FxFilter(h));
+			e
+		}
+		Fx::Eq { kind, f, gain, q } => {
+			let (e, h) = EqFilterBuilder::new(*kind, *f, Decibels(*gain), *q).build();
+			kept = Some(H::FxEq(h));
+			e
+		}
+		Fx::Delay { time, fb, mix, fbfx } => {
+			let mut d = DelayBuilder::new().delay_time(*time).feedback(Decibels(*fb)).mix(Mix(*mix));
+			if let Some((c, q)) = fbfx {
+				d = d.with_feedback_effect(FilterBuilder::new().cutoff(*c).resonance(*q));
+			}
+			let (e, h) = d.build();
+			kept = Some(H::FxDelay(h));
+			e
+		}
+		Fx::Reverb { fb, damp, width, mix } => {
+			let (e, h) = ReverbBuilder::new().feedback(*fb).damping(*damp).stereo_width(*width).mix(Mix(*mix)).build();
+			kept = Some(H::FxReverb(h));
+			e
+		}
+		Fx::Compressor { thr, ratio, attack, release, makeup, mix } => {
+			let (e, h) = CompressorBuilder::new().threshold(*thr).ratio(*ratio).attack_duration(*attack).release_duration(*release).makeup_gain(Decibels(*makeup)).mix(Mix(*mix)).build();
+			kept = Some(H::FxComp(h));
+			e
+		}
+		Fx::Distortion { kind, drive, mix } => {
+			let (e, h) = DistortionBuilder::new().kind(*kind).drive(Decibels(*drive)).mix(Mix(*mix)).build();
+			kept = Some(H::FxDist(h));
+			e
+		}
+		Fx::Volume(d) => VolumeControlBuilder::new(Decibels(*d)).build().0,
+		Fx::Pan(p) => PanningControlBuilder(Value::Fixed(Panning(*p))).build().0,
+		Fx::Probe => Box::new(FxProbe(log.clone())),
+	};
+	if let (Some(v), Some(h)) = (keep, kept) {
+		v.push(h);
+	}
+	e
+}
+
+enum AReq {
+	Cb { out: Vec<f32>, ch: u16 },
+	Quit,
+}
+enum AResp {
+	Cb { out: Vec<f32>, allocs: u64, frees: u64, panic: Option<String> },
+	Quit(Box<Renderer>),
+}
+/// the audio thread: owns the `Renderer`; heap traffic is counted on this thread only while a
+/// callback (`on_start_processing` + `process`) runs
+struct Audio {
+	tx: mpsc::Sender<AReq>,
+	rx: mpsc::Receiver<AResp>,
+	tid: ThreadId,
+}
+impl Audio {
+	fn start(renderer: Renderer) -> Audio {
+		let (tx, arx) = mpsc::channel::<AReq>();
+		let (atx, rx) = mpsc::channel::<AResp>();
+		let (ttx, trx) = mpsc::channel::<ThreadId>();
+		let _ = std::thread::Builder::new().name("audio".into()).spawn(move || {
+			let mut r = Box::new(renderer);
+			let _ = ttx.send(std::thread::current().id());
+			while let Ok(req) = arx.recv() {
+				match req {
+					AReq::Cb { mut out, ch } => {
+						let (res, allocs, frees) = counted(|| {
+							std::panic::catch_unwind(std::panic::AssertUnwindSafe(|| {
+								r.on_start_processing();
+								r.process(&mut out, ch);
+							}))
+						});
+						let panic = if res.is_err() { Some(last_panic()) } else { None };
+						if atx.send(AResp::Cb { out, allocs, frees, panic }).is_err() {
+							return;
+						}
+					}
+					AReq::Quit => {
+						let _ = atx.send(AResp::Quit(r));
+						return;
+					}
+				}
+			}
+		});
+		let tid = trx.recv().unwrap();
+		Audio { tx, rx, tid }
+	}
+}
+
+#[derive(Debug, Clone)]
+struct Fail {
+	kind: &'static str, // panic | nan | range | layout | alloc | drop | chunks | hang
+	what: String,
+	/// index of the operation at which it was observed
+	at: usize,
+}
+#[derive(Debug, Default)]
+struct SceneResult {
+	fail: Option<Fail>,
+	callbacks: usize,
+	samples: u64,
+	/// model cases (term, observed) collected from the callbacks of this scene
+	cases: Vec<(&'static str, String, Vec<i128>)>,
+	drops_seen: usize,
+}
+
+fn expected_chunks(frames: usize, ibs: usize) -> Vec<usize> {
+	let mut v = vec![ibs; frames / ibs];
+	if frames % ibs != 0 {
+		v.push(frames % ibs);
+	}
+	v
+}
+
+/// Builds and runs one scene on this thread (+ its audio thread); stops at the first failure.
+fn exec_scene(sc: &Scene, want_cases: bool) -> SceneResult {
+	let mut res = SceneResult::default();
+	let log = ProbeLog::new();
+	let caps = Capacities { sub_track_capacity: sc.caps[0], send_track_capacity: sc.caps[1], clock_capacity: sc.caps[2], modulator_capacity: sc.caps[3], listener_capacity: sc.caps[4] };
+	let mut hs: Vec<H> = vec![];
+	let built = catch(|| {
+		let mut main = MainTrackBuilder::new().volume(Decibels(sc.main_vol)).sound_capacity(sc.main_cap);
+		for fx in &sc.main_fx {
+			main.add_built_effect(build_fx(fx, &[], &log, None));
+		}
+		main.add_built_effect(Box::new(MainProbe(log.clone())));
+		manager(sc.sr, sc.ibs, caps, main)
+	});
+	let mut m = match built {
+		Outcome::Ok(m) => m,
+		_ => {
+			res.fail = Some(Fail { kind: "panic", what: format!("AudioManager::new panicked: {}", last_panic()), at: 0 });
+			return res;
+		}
+	};
+	let audio = Audio::start(m.backend_mut().renderer.take().unwrap());
+	let check_drops = |log: &ProbeLog, seen: &mut usize| -> Option<String> {
+		let d = log.drops.lock().unwrap();
+		*seen = d.len();
+		d.iter().find(|(_, t)| *t == audio.tid).map(|(w, _)| format!("a {w} was dropped on the audio thread"))
+	};
+	let trace = crate::alloc::TRACE.load(std::sync::atomic::Ordering::Relaxed);
+	for (idx, op) in sc.ops.iter().enumerate() {
+		if trace {
+			eprintln!("OP {idx}: {op:?}");
+		}
+		let r = catch(|| -> Option<(&'static str, String)> {
+			match op {
+				Op::Play(p) => {
+					let mut st = StaticSoundSettings::new().volume(Decibels(p.vol)).panning(Panning(p.pan)).playback_rate(PlaybackRate(p.rate)).reverse(p.reverse);
+					if let Some((a, b)) = p.looped {
+						st = st.loop_region(Region::from(a..b));
+					}
+					if let Some(s) = p.start {
+						st = st.start_position(PlaybackPosition::Samples(s));
+					}
+					if let Some(tw) = &p.fade_in {
+						st = st.fade_in_tween(tween(tw, &hs));
+					}
+					st = st.start_time(start_time(&p.start_time, &hs));
+					let mut data = sound_from_frames(p.ssr.max(1), p.frames.expand());
+					data.settings = st;
+					data.slice = p.slice;
+					let tracks: Vec<usize> = hs.iter().enumerate().filter(|(_, h)| matches!(h, H::Track(_))).map(|(i, _)| i).collect();
+					let hnd = match (p.on, tracks.is_empty()) {
+						(Some(sel), false) => {
+							let i = tracks[(sel % tracks.len() as u64) as usize];
+							if let H::Track(t) = &mut hs[i] { t.play(data).ok() } else { None }
+						}
+						_ => m.play(data).ok(),
+					};
+					if let Some(h) = hnd {
+						hs.push(H::Sound(h));
+					}
+				}
+				Op::PlayProbe { len, on } => {
+					let data = SndProbeData(SndProbe { log: log.clone(), left: *len, _payload: vec![1u8; 64] });
+					let tracks: Vec<usize> = hs.iter().enumerate().filter(|(_, h)| matches!(h, H::Track(_))).map(|(i, _)| i).collect();
+					match (on, tracks.is_empty()) {
+						(Some(sel), false) => {
+							let i = tracks[(*sel % tracks.len() as u64) as usize];
+							if let H::Track(t) = &mut hs[i] {
+								let _ = t.play(data);
+							}
+						}
+						_ => {
+							let _ = m.play(data);
+						}
+					}
+				}
+				Op::AddSub(s) => {
+					let mut b = TrackBuilder::new().volume(Decibels(s.vol)).sound_capacity(s.cap).sub_track_capacity(s.sub_cap).persist_until_sounds_finish(s.persist);
+					let mut kept: Vec<H> = vec![];
+					for fx in &s.fx {
+						b.add_built_effect(build_fx(fx, &hs, &log, if s.keep_fx_handles { Some(&mut kept) } else { None }));
+					}
+					if let Some(v) = s.send {
+						if let Some(sid) = hs.iter().find_map(|h| if let H::Send(s) = h { Some(s.id()) } else { None }) {
+							b = b.with_send(sid, Decibels(v));
+						}
+					}
+					let parents: Vec<usize> = hs.iter().enumerate().filter(|(_, h)| matches!(h, H::Track(_))).map(|(i, _)| i).collect();
+					let t = match (s.parent, parents.is_empty()) {
+						(Some(sel), false) => {
+							let i = parents[(sel % parents.len() as u64) as usize];
+							if let H::Track(p) = &mut hs[i] { p.add_sub_track(b).ok() } else { None }
+						}
+						_ => m.add_sub_track(b).ok(),
+					};
+					if let Some(t) = t {
+						hs.push(H::Track(t));
+						hs.extend(kept);
+					}
+				}
+				Op::AddSend { vol, probe } => {
+					let mut b = SendTrackBuilder::new().volume(Decibels(*vol)).with_effect(ReverbBuilder::new().mix(Mix(1.0)));
+					if *probe {
+						b.add_built_effect(Box::new(FxProbe(log.clone())));
+					}
+					if let Ok(s) = m.add_send_track(b) {
+						hs.push(H::Send(s));
+					}
+				}
+				Op::AddClock { speed, start } => {
+					if let Ok(mut c) = m.add_clock(*speed) {
+						if *start {
+							c.start();
+						}
+						hs.push(H::Clock(c));
+					}
+				}
+				Op::AddLfo { wave, f, amp, offset, phase } => {
+					let w = [Waveform::Sine, Waveform::Triangle, Waveform::Saw, Waveform::Pulse { width: 0.3 }][*wave as usize % 4];
+					if let Ok(l) = m.add_modulator(LfoBuilder::new().waveform(w).frequency(*f).amplitude(*amp).offset(*offset).starting_phase(*phase)) {
+						hs.push(H::Lfo(l));
+					}
+				}
+				Op::AddTweener { init } => {
+					if let Ok(t) = m.add_modulator(TweenerBuilder { initial_value: *init }) {
+						hs.push(H::Tweener(t));
+					}
+				}
+				Op::AddProbeMod { len } => {
+					let _ = m.add_modulator(ModProbeBuilder(log.clone(), *len));
+				}
+				Op::AddListener { pos } => {
+					if let Ok(l) = m.add_listener(*pos, [0.0f32, 0.0, 0.0, 1.0]) {
+						hs.push(H::Listener(l));
+					}
+				}
+				Op::AddSpatial { pos, d0, d1, strength, atten, frames, vol } => {
+					if let Some(lid) = hs.iter().find_map(|h| if let H::Listener(l) = h { Some(l.id()) } else { None }) {
+						let b = SpatialTrackBuilder::new().volume(Decibels(*vol)).distances((*d0, *d1)).spatialization_strength(*strength).attenuation_function(*atten);
+						if let Ok(mut t) = m.add_spatial_sub_track(lid, *pos, b) {
+							let _ = t.play(sound_from_frames(sc.sr, frames.expand()));
+							hs.push(H::Spatial(t));
+						}
+					}
+				}
+				Op::Cmd(c) => {
+					if !hs.is_empty() {
+						let i = (c.sel % hs.len() as u64) as usize;
+						let tw = tween(&c.tw, &hs);
+						let w = c.which;
+						match &mut hs[i] {
+							H::Sound(s) => match w % 10 {
+								0 => s.pause(tw),
+								1 => s.resume(tw),
+								2 => s.stop(tw),
+								3 => s.set_volume(Decibels(c.db), tw),
+								4 => s.set_playback_rate(PlaybackRate(c.rate), tw),
+								5 => s.set_panning(Panning(c.pan), tw),
+								6 => s.seek_to(c.u * 0.02),
+								7 => s.seek_by((c.u - 0.5) * 0.02),
+								8 => s.resume_at(tw.start_time, Tween { start_time: StartTime::Immediate, ..tw }),
+								_ => {
+									let a = c.u * 0.005;
+									s.set_loop_region(Region::from(a..a + 0.002))
+								}
+							},
+							H::Track(t) => match w % 4 {
+								0 => t.pause(tw),
+								1 => t.resume(tw),
+								2 => t.resume_at(tw.start_time, Tween { start_time: StartTime::Immediate, ..tw }),
+								_ => t.set_volume(Decibels(c.db), tw),
+							},
+							H::Spatial(t) => match w % 5 {
+								0 => t.set_position(c.pos, tw),
+								1 => t.set_spatialization_strength(c.mixv, tw),
+								2 => t.pause(tw),
+								3 => t.resume(tw),
+								_ => t.set_volume(Decibels(c.db), tw),
+							},
+							H::Send(s) => s.set_volume(Decibels(c.db), tw),
+							H::Clock(k) => match w % 4 {
+								0 => k.pause(),
+								1 => k.stop(),
+								2 => k.start(),
+								_ => k.set_speed(c.speed, tw),
+							},
+							H::Lfo(l) => match w % 3 {
+								0 => l.set_frequency(c.freq.min(1e6), tw),
+								1 => l.set_amplitude(c.u * 2.0, tw),
+								_ => l.set_phase((c.u - 0.5) * 20.0),
+							},
+							H::Tweener(t) => t.set(c.u * 2.0 - 1.0, tw),
+							H::Listener(l) => l.set_position(c.pos, tw),
+							H::FxFilter(f) => match w % 3 {
+								0 => f.set_cutoff(c.freq, tw),
+								1 => f.set_resonance(c.u, tw),
+								_ => f.set_mix(Mix(c.mixv), tw),
+							},
+							H::FxEq(f) => match w % 3 {
+								0 => f.set_frequency(c.freq, tw),
+								1 => f.set_gain(Decibels(c.db), tw),
+								_ => f.set_q(0.1 + c.u * 4.0, tw),
+							},
+							H::FxDelay(f) => match w % 2 {
+								0 => f.set_feedback(Decibels(c.db.min(24.0)), tw),
+								_ => f.set_mix(Mix(c.mixv), tw),
+							},
+							H::FxReverb(f) => match w % 4 {
+								0 => f.set_feedback(c.u, tw),
+								1 => f.set_damping(c.u, tw),
+								2 => f.set_stereo_width(c.u, tw),
+								_ => f.set_mix(Mix(c.mixv), tw),
+							},
+							H::FxComp(f) => match w % 4 {
+								0 => f.set_ratio(1.0 + c.u * 8.0, tw),
+								1 => f.set_threshold(-c.u * 40.0, tw),
+								2 => f.set_makeup_gain(Decibels(c.db.min(24.0)), tw),
+								_ => f.set_mix(Mix(c.mixv), tw),
+							},
+							H::FxDist(f) => match w % 2 {
+								0 => f.set_drive(Decibels(c.db), tw),
+								_ => f.set_mix(Mix(c.mixv), tw),
+							},
+						}
+					}
+				}
+				Op::DropHandle { sel } => {
+					if !hs.is_empty() {
+						let i = (*sel % hs.len() as u64) as usize;
+						hs.swap_remove(i);
+					}
+				}
+				Op::Callback { frames, ch } => {
+					let (frames, ch) = (*frames, *ch);
+					log.reset();
+					let out = vec![f32::from_bits(0x7FC0_1234); frames * ch as usize];
+					audio.tx.send(AReq::Cb { out, ch }).unwrap();
+					let (out, allocs, frees, panic) = match audio.rx.recv() {
+						Ok(AResp::Cb { out, allocs, frees, panic }) => (out, allocs, frees, panic),
+						_ => return Some(("panic", "the audio thread died".into())),
+					};
+					if let Some(p) = panic {
+						return Some(("panic", format!("the audio callback panicked: {p}")));
+					}
+					if allocs != 0 || frees != 0 {
+						return Some(("alloc", format!("callback allocated {allocs} / freed {frees} heap blocks on the audio thread")));
+					}
+					if let Some(w) = check_drops(&log, &mut res.drops_seen) {
+						return Some(("drop", w));
+					}
+					let starts = log.starts.load(Ordering::SeqCst);
+					let nchunks = log.nchunks.load(Ordering::SeqCst).min(CHUNK_LOG);
+					let lens: Vec<usize> = (0..nchunks).map(|k| log.chunk_len[k].load(Ordering::SeqCst) as usize).collect();
+					if starts != 1 || (frames <= CHUNK_LOG && lens != expected_chunks(frames, sc.ibs)) {
+						return Some(("chunks", format!("on_start_processing ran {starts}x and the chunks were {lens:?} for {frames} frames with internal buffer {}", sc.ibs)));
+					}
+					for (k, x) in out.iter().enumerate() {
+						if x.to_bits() == 0x7FC0_1234 {
+							return Some(("layout", format!("sample {k} of the device buffer was not written")));
+						}
+						if !x.is_finite() {
+							return Some(("nan", format!("sample {k} of a callback is {x:?}")));
+						}
+						if !(*x >= -1.0 && *x <= 1.0) {
+							return Some(("range", format!("sample {k} of a callback is {x:?}, outside [-1, 1]")));
+						}
+						if ch > 2 && (k % ch as usize) >= 2 && x.to_bits() != 0 {
+							return Some(("layout", format!("extra channel {} carries {x:?}", k % ch as usize)));
+						}
+					}
+					if want_cases && frames <= CHUNK_LOG {
+						// heap traffic, on_start count and chunk sequence against the model's annotation
+						let mut obs: Vec<i128> = vec![allocs as i128, frees as i128, starts as i128];
+						obs.extend(lens.iter().map(|l| *l as i128));
+						res.cases.push(("callback_steps", format!("CCb {} {}", sc.ibs, frames), obs));
+						// the bus recorded by the probe, through the model's output stage (main volume 0 dB only)
+						if sc.main_vol == 0.0 && frames <= BUS_LOG && frames > 0 {
+							let bus: Vec<String> = (0..frames).map(|j| format!("({}, {})", f32_bits_z(f32::from_bits(log.bus[j].0.load(Ordering::SeqCst))), f32_bits_z(f32::from_bits(log.bus[j].1.load(Ordering::SeqCst))))).collect();
+							res.cases.push(("bus_out_stage", format!("COut {} {} [{}]", ch, sc.ibs, bus.join("; ")), out.iter().map(|x| obs32(*x)).collect()));
+						}
+					}
+					res.callbacks += 1;
+					res.samples += out.len() as u64;
+				}
+			}
+			None
+		});
+		match r {
+			Outcome::Ok(None) => {}
+			Outcome::Ok(Some((k, w))) => {
+				res.fail = Some(Fail { kind: k, what: w, at: idx });
+				break;
+			}
+			_ => {
+				res.fail = Some(Fail { kind: "panic", what: format!("a manager / handle call panicked: {} (operation {idx}: {:?})", last_panic(), sc.ops[idx]), at: idx });
+				break;
+			}
+		}
+	}
+	// the renderer comes back; everything is dropped on this (the caller's) thread
+	if res.fail.as_ref().map(|f| f.kind) != Some("panic") {
+		let _ = audio.tx.send(AReq::Quit);
+		if let Ok(AResp::Quit(r)) = audio.rx.recv_timeout(Duration::from_secs(2)) {
+			m.backend_mut().renderer = Some(*r);
+		}
+	}
+	drop(hs);
+	drop(m);
+	if res.fail.is_none() {
+		if let Some(w) = check_drops(&log, &mut res.drops_seen) {
+			res.fail = Some(Fail { kind: "drop", what: w, at: sc.ops.len() });
+		}
+	}
+	res
+}
+
+/// runs a scene under a watchdog; `None` = it did not come back (the threads are abandoned)
+fn run_watchdog(sc: &Scene, want_cases: bool, secs: f64) -> Option<SceneResult> {
+	let (tx, rx) = mpsc::channel();
+	let sc2 = sc.clone();
+	let _ = std::thread::Builder::new().name("scene".into()).spawn(move || {
+		let r = exec_scene(&sc2, want_cases);
+		let _ = tx.send(r);
+	});
+	rx.recv_timeout(Duration::from_secs_f64(secs)).ok()
+}
+
+// ------------------------------------------------------------------------------------------------
+// classes of known findings: trigger predicate + neutraliser (one function: it rewrites the
+// trigger to a benign documented value and says whether it found one)
+// ------------------------------------------------------------------------------------------------
+fn amp(db: f32) -> f32 {
+	10.0f32.powf(db / 20.0)
+}
+fn for_each_fx(sc: &mut Scene, f: &mut dyn FnMut(&mut Fx)) {
+	for fx in sc.main_fx.iter_mut() {
+		f(fx);
+	}
+	for op in sc.ops.iter_mut() {
+		if let Op::AddSub(s) = op {
+			for fx in s.fx.iter_mut() {
+				f(fx);
+			}
+		}
+	}
+}
+/// every argument of type `Decibels` in the scene
+fn for_each_db(sc: &mut Scene, f: &mut dyn FnMut(&mut f32)) {
+	f(&mut sc.main_vol);
+	for_each_fx(sc, &mut |fx| match fx {
+		Fx::Eq { gain, .. } => f(gain),
+		Fx::Delay { fb, .. } => f(fb),
+		Fx::Compressor { makeup, .. } => f(makeup),
+		Fx::Distortion { drive, .. } => f(drive),
+		Fx::Volume(d) => f(d),
+		_ => {}
+	});
+	for op in sc.ops.iter_mut() {
+		match op {
+			Op::Play(p) => f(&mut p.vol),
+			Op::AddSub(s) => {
+				f(&mut s.vol);
+				if let Some(v) = &mut s.send {
+					f(v);
+				}
+			}
+			Op::AddSend { vol, .. } => f(vol),
+			Op::AddSpatial { vol, .. } => f(vol),
+			Op::Cmd(c) => f(&mut c.db),
+			_ => {}
+		}
+	}
+}
+fn for_each_easing(sc: &mut Scene, f: &mut dyn FnMut(&mut Easing)) {
+	for op in sc.ops.iter_mut() {
+		match op {
+			Op::Play(p) => {
+				if let Some(tw) = &mut p.fade_in {
+					f(&mut tw.easing);
+				}
+			}
+			Op::AddSpatial { atten: Some(e), .. } => f(e),
+			Op::Cmd(c) => f(&mut c.tw.easing),
+			_ => {}
+		}
+	}
+}
+fn max_ssr(sc: &Scene) -> u32 {
+	sc.ops.iter().filter_map(|o| if let Op::Play(p) = o { Some(p.ssr.max(1)) } else { None }).max().unwrap_or(sc.sr)
+}
+/// playback rates with the number of source frames they skip per device frame
+fn for_each_rate(sc: &mut Scene, f: &mut dyn FnMut(&mut f64, f64)) {
+	let (sr, mx) = (sc.sr as f64, max_ssr(sc) as f64);
+	for op in sc.ops.iter_mut() {
+		match op {
+			Op::Play(p) => {
+				let k = p.ssr.max(1) as f64 / sr;
+				f(&mut p.rate, k)
+			}
+			Op::Cmd(c) => f(&mut c.rate, mx / sr),
+			_ => {}
+		}
+	}
+}
+fn for_each_speed(sc: &mut Scene, f: &mut dyn FnMut(&mut ClockSpeed)) {
+	for op in sc.ops.iter_mut() {
+		match op {
+			Op::AddClock { speed, .. } => f(speed),
+			Op::Cmd(c) => f(&mut c.speed),
+			_ => {}
+		}
+	}
+}
+fn easing_power_negative(e: &Easing) -> bool {
+	match e {
+		Easing::InPowi(p) | Easing::OutPowi(p) | Easing::InOutPowi(p) => *p < 0,
+		Easing::InPowf(p) | Easing::OutPowf(p) | Easing::InOutPowf(p) => *p < 0.0,
+		Easing::Linear => false,
+	}
+}
+
+struct Class {
+	name: &'static str,
+	/// which of the class's triggers (for classes that list several parameters)
+	detail: &'static str,
+	/// the failure kinds this finding is listed with
+	kinds: &'static [&'static str],
+	/// rewrites every trigger of the class to a benign value; true iff the scene contained one
+	neutralise: fn(&mut Scene) -> bool,
+}
+
+/// F29: a source sample so large that the Hermite interpolator (frame.rs interpolate_frame: sums
+/// of up to 12 x max|sample|) can overflow
+fn neut_samples(sc: &mut Scene) -> bool {
+	let mut hit = false;
+	for op in sc.ops.iter_mut() {
+		let fr = match op {
+			Op::Play(p) => &mut p.frames,
+			Op::AddSpatial { frames, .. } => frames,
+			_ => continue,
+		};
+		if fr.max_abs() >= f32::MAX / 12.0 {
+			fr.kind = 5;
+			hit = true;
+		}
+	}
+	hit
+}
+/// F5: a single `Decibels` argument whose amplitude 10^(dB/20) is infinite in f32
+fn neut_gain(sc: &mut Scene) -> bool {
+	let mut hit = false;
+	for_each_db(sc, &mut |d| {
+		if amp(*d).is_infinite() {
+			*d = 0.0;
+			hit = true;
+		}
+	});
+	hit
+}
+/// proposed: gains that are finite one by one but whose product with the largest source sample overflows f32
+fn neut_chain(sc: &mut Scene) -> bool {
+	let mut total = 0.0f64;
+	for_each_db(sc, &mut |d| {
+		if *d > 24.0 && amp(*d).is_finite() {
+			total += *d as f64;
+		}
+	});
+	let mut mx = 1.0f32;
+	for op in sc.ops.iter() {
+		match op {
+			Op::Play(PlaySpec { frames, .. }) | Op::AddSpatial { frames, .. } => mx = mx.max(frames.max_abs()),
+			_ => {}
+		}
+	}
+	if total + 20.0 * (mx as f64).log10() < 770.0 {
+		return false;
+	}
+	for_each_db(sc, &mut |d| {
+		if *d > 24.0 && amp(*d).is_finite() {
+			*d = 24.0;
+		}
+	});
+	true
+}
+/// F33: an effect parameter outside the range its doc comment states (or that F33 lists), one
+/// sub-trigger per parameter so that the attribution names the parameter:
+///   EQ q "should be greater than 0.0" (eq_filter/builder.rs); reverb feedback "1.0 gives an infinitely
+///   reverberating room", stereo width "0.0 being fully mono, 1.0 being fully stereo" (reverb/builder.rs);
+///   compressor ratio: only ratios above 0 are described ("Ratios between 0.0 and 1.0 will actually
+///   expand", compressor/builder.rs); Mix "Valid mix values range from 0.0 to 1.0" (mix.rs);
+///   listed by F33 without a doc comment: filter resonance outside [0, 1), reverb damping outside [0, 1],
+///   frequencies <= 0 or beyond Nyquist, delay feedback >= 0 dB (loop gain >= 1).
+fn out_unit(x: f64) -> bool {
+	!(0.0..=1.0).contains(&x)
+}
+fn neut_comp_ratio(sc: &mut Scene) -> bool {
+	let mut hit = false;
+	for_each_fx(sc, &mut |fx| {
+		if let Fx::Compressor { ratio, .. } = fx {
+			if !((*ratio as f32) > 0.0) {
+				*ratio = 2.0;
+				hit = true;
+			}
+		}
+	});
+	hit
+}
+fn neut_eq_q(sc: &mut Scene) -> bool {
+	let mut hit = false;
+	for_each_fx(sc, &mut |fx| {
+		if let Fx::Eq { q, .. } = fx {
+			if !(*q > 0.0) {
+				*q = 1.0;
+				hit = true;
+			}
+		}
+	});
+	hit
+}
+fn neut_reverb_fb(sc: &mut Scene) -> bool {
+	let mut hit = false;
+	for_each_fx(sc, &mut |fx| {
+		if let Fx::Reverb { fb, .. } = fx {
+			if out_unit(*fb) {
+				*fb = 0.5;
+				hit = true;
+			}
+		}
+	});
+	hit
+}
+fn neut_reverb_damp(sc: &mut Scene) -> bool {
+	let mut hit = false;
+	for_each_fx(sc, &mut |fx| {
+		if let Fx::Reverb { damp, .. } = fx {
+			if out_unit(*damp) {
+				*damp = 0.5;
+				hit = true;
+			}
+		}
+	});
+	hit
+}
+fn neut_reverb_width(sc: &mut Scene) -> bool {
+	let mut hit = false;
+	for_each_fx(sc, &mut |fx| {
+		if let Fx::Reverb { width, .. } = fx {
+			if out_unit(*width) {
+				*width = 0.5;
+				hit = true;
+			}
+		}
+	});
+	hit
+}
+fn neut_resonance(sc: &mut Scene) -> bool {
+	let mut hit = false;
+	let mut res = |x: &mut f64, hit: &mut bool| {
+		if !(*x >= 0.0 && *x < 1.0) {
+			*x = 0.0;
+			*hit = true;
+		}
+	};
+	for_each_fx(sc, &mut |fx| match fx {
+		Fx::Filter { res: r, .. } => res(r, &mut hit),
+		Fx::Delay { fbfx: Some((_, q)), .. } => res(q, &mut hit),
+		_ => {}
+	});
+	hit
+}
+fn neut_freq(sc: &mut Scene) -> bool {
+	let mut hit = false;
+	let nyq = sc.sr as f64 / 2.0;
+	let mut freq = |x: &mut f64, hit: &mut bool| {
+		if !(*x > 0.0 && *x <= nyq) {
+			*x = (nyq / 2.0).min(1000.0);
+			*hit = true;
+		}
+	};
+	for_each_fx(sc, &mut |fx| match fx {
+		Fx::Filter { cutoff, .. } => freq(cutoff, &mut hit),
+		Fx::Eq { f, .. } => freq(f, &mut hit),
+		Fx::Delay { fbfx: Some((c, _)), .. } => freq(c, &mut hit),
+		_ => {}
+	});
+	for op in sc.ops.iter_mut() {
+		if let Op::Cmd(c) = op {
+			freq(&mut c.freq, &mut hit);
+		}
+	}
+	hit
+}
+fn neut_delay_fb(sc: &mut Scene) -> bool {
+	let mut hit = false;
+	for_each_fx(sc, &mut |fx| {
+		if let Fx::Delay { fb, .. } = fx {
+			if *fb >= 0.0 {
+				*fb = -6.0;
+				hit = true;
+			}
+		}
+	});
+	hit
+}
+fn neut_mix(sc: &mut Scene) -> bool {
+	let mut hit = false;
+	let mut mixf = |x: &mut f32, hit: &mut bool| {
+		if !(0.0..=1.0).contains(x) {
+			*x = 0.5;
+			*hit = true;
+		}
+	};
+	for_each_fx(sc, &mut |fx| match fx {
+		Fx::Filter { mix, .. } | Fx::Delay { mix, .. } | Fx::Reverb { mix, .. } | Fx::Compressor { mix, .. } | Fx::Distortion { mix, .. } => mixf(mix, &mut hit),
+		_ => {}
+	});
+	for op in sc.ops.iter_mut() {
+		if let Op::Cmd(c) = op {
+			mixf(&mut c.mixv, &mut hit);
+		}
+	}
+	hit
+}
+/// the unit-range value of a command (resonance / reverb feedback, damping, width set through an effect handle)
+fn neut_cmd_unit(sc: &mut Scene) -> bool {
+	let mut hit = false;
+	for op in sc.ops.iter_mut() {
+		if let Op::Cmd(c) = op {
+			if !(c.u >= 0.0 && c.u < 1.0) {
+				c.u = 0.5;
+				hit = true;
+			}
+		}
+	}
+	hit
+}
+/// proposed: a power-curve easing with a negative power (Easing::apply then maps [0,1] to [1, inf])
+fn neut_easing(sc: &mut Scene) -> bool {
+	let mut hit = false;
+	for_each_easing(sc, &mut |e| {
+		if easing_power_negative(e) {
+			*e = Easing::Linear;
+			hit = true;
+		}
+	});
+	hit
+}
+/// proposed: a compressor threshold that is infinite once cast to f32 (`self.threshold.value() as f32`)
+fn neut_comp_thr(sc: &mut Scene) -> bool {
+	let mut hit = false;
+	for_each_fx(sc, &mut |fx| {
+		if let Fx::Compressor { thr, .. } = fx {
+			if (*thr as f32).is_infinite() {
+				*thr = -20.0;
+				hit = true;
+			}
+		}
+	});
+	hit
+}
+/// proposed: an EQ gain so low that 10^(gain/40) underflows to 0 in f64 (then k = 1/(q*a) or g/sqrt(a) divides by 0)
+fn neut_eq_gain(sc: &mut Scene) -> bool {
+	let mut hit = false;
+	for_each_fx(sc, &mut |fx| {
+		if let Fx::Eq { gain, .. } = fx {
+			if 10.0f64.powf(*gain as f64 / 40.0) == 0.0 {
+				*gain = -12.0;
+				hit = true;
+			}
+		}
+	});
+	for op in sc.ops.iter_mut() {
+		if let Op::Cmd(c) = op {
+			if 10.0f64.powf(c.db as f64 / 40.0) == 0.0 {
+				c.db = -12.0;
+				hit = true;
+			}
+		}
+	}
+	hit
+}
+const TWO53: f64 = 9007199254740992.0;
+/// F8: a playback rate whose per-frame increment sample_rate * |rate| * dt reaches 2^53
+fn neut_rate(sc: &mut Scene) -> bool {
+	let mut hit = false;
+	for_each_rate(sc, &mut |r, k| {
+		if r.abs() * k >= TWO53 {
+			*r = r.signum();
+			hit = true;
+		}
+	});
+	hit
+}
+/// F34: a playback rate that makes one output frame cost more than 1000 iterations of the carry loop
+fn neut_rate_cost(sc: &mut Scene) -> bool {
+	let mut hit = false;
+	for_each_rate(sc, &mut |r, k| {
+		if r.abs() * k > 1000.0 {
+			*r = r.signum();
+			hit = true;
+		}
+	});
+	hit
+}
+/// F7: a clock speed whose ticks-per-chunk reaches 2^53 (or is infinite)
+fn neut_clock(sc: &mut Scene) -> bool {
+	let mut hit = false;
+	let dt = sc.ibs as f64 / sc.sr as f64;
+	for_each_speed(sc, &mut |s| {
+		let t = s.as_ticks_per_second() * dt;
+		if t >= TWO53 {
+			*s = ClockSpeed::TicksPerSecond(2.0);
+			hit = true;
+		}
+	});
+	hit
+}
+fn classes() -> Vec<Class> {
+	let c = |name, detail, kinds, neutralise| Class { name, detail, kinds, neutralise };
+	const NAN: &[&str] = &["nan"];
+	const HANG: &[&str] = &["hang"];
+	vec![
+		c(HZ_SAMPLES, "", NAN, neut_samples),
+		c(HZ_GAIN, "", NAN, neut_gain),
+		c(HZ_CHAIN, "", NAN, neut_chain),
+		c(HZ_EASING, "", &["nan", "hang"], neut_easing),
+		c(HZ_COMP_THR, "", NAN, neut_comp_thr),
+		c(HZ_EQ_GAIN, "", NAN, neut_eq_gain),
+		c(HZ_PARAM, "compressor ratio <= 0", NAN, neut_comp_ratio),
+		c(HZ_PARAM, "eq q <= 0", NAN, neut_eq_q),
+		c(HZ_PARAM, "reverb feedback outside [0,1]", NAN, neut_reverb_fb),
+		c(HZ_PARAM, "reverb damping outside [0,1]", NAN, neut_reverb_damp),
+		c(HZ_PARAM, "reverb stereo width outside [0,1]", NAN, neut_reverb_width),
+		c(HZ_PARAM, "delay feedback >= 0 dB", NAN, neut_delay_fb),
+		c(HZ_PARAM, "filter resonance outside [0,1)", NAN, neut_resonance),
+		c(HZ_PARAM, "frequency <= 0 or beyond Nyquist", NAN, neut_freq),
+		c(HZ_PARAM, "mix outside [0,1]", NAN, neut_mix),
+		c(HZ_PARAM, "unit-range value set through an effect handle", NAN, neut_cmd_unit),
+		c(HZ_CLOCK, "", HANG, neut_clock),
+		c(HZ_RATE, "", HANG, neut_rate),
+		c(HZ_RATE_COST, "", HANG, neut_rate_cost),
+	]
+}
+
+/// scene -> (kind, what) of its first failure; a hang is a failure of kind "hang"
+fn outcome(sc: &Scene, secs: f64, hangs_left: &mut u32) -> (Option<SceneResult>, Option<Fail>) {
+	match run_watchdog(sc, false, secs) {
+		Some(r) => {
+			let f = r.fail.clone();
+			(Some(r), f)
+		}
+		None => {
+			*hangs_left = hangs_left.saturating_sub(1);
+			(None, Some(Fail { kind: "hang", what: "a callback (or a call made on the audio path) did not return within the watchdog time".into(), at: usize::MAX }))
+		}
+	}
+}
+
+struct Verdict {
+	/// the scene on which the reported failure was observed (known triggers already removed, minimised, for a new one)
+	scene: Scene,
+	fail: Fail,
+	class: Option<&'static str>,
+	detail: &'static str,
+	trail: String,
+}
+
+/// Counterfactual attribution (see the module doc).  `first` is the failure of `sc` itself.
+fn attribute(sc: &Scene, first: Fail, secs: f64, hangs_left: &mut u32) -> Verdict {
+	let cls = classes();
+	let mut cur = sc.clone();
+	if first.at < cur.ops.len() {
+		cur.ops.truncate(first.at + 1);
+	}
+	let mut fail = first;
+	let mut used: BTreeSet<(&'static str, &'static str)> = BTreeSet::new();
+	let mut trail = String::new();
+	loop {
+		// next listed class whose trigger is in the scene and whose listed failure is the observed one
+		let mut next: Option<(&Class, Scene)> = None;
+		for c in &cls {
+			if used.contains(&(c.name, c.detail)) || !c.kinds.contains(&fail.kind) {
+				continue;
+			}
+			let mut s2 = cur.clone();
+			if (c.neutralise)(&mut s2) {
+				next = Some((c, s2));
+				break;
+			}
+		}
+		let Some((c, s2)) = next else {
+			// no listed trigger left: a failure of its own
+			let scene = if fail.kind == "hang" { cur } else { minimise(&cur, &fail, secs, hangs_left) };
+			return Verdict { scene, fail, class: None, detail: "", trail };
+		};
+		used.insert((c.name, c.detail));
+		if fail.kind == "hang" && *hangs_left == 0 {
+			// no budget to re-run a scene that may hang again: leave it unattributed rather than guess
+			return Verdict { scene: cur, fail, class: None, detail: "", trail: trail + " (watchdog budget exhausted)" };
+		}
+		let (_, f2) = outcome(&s2, secs, hangs_left);
+		match f2 {
+			None => {
+				// with exactly this trigger removed the scene is fine: the trigger was necessary
+				if !c.detail.is_empty() {
+					trail.push_str(&format!("[trigger: {}] ", c.detail));
+				}
+				return Verdict { scene: cur, fail, class: Some(c.name), detail: c.detail, trail };
+			}
+			Some(f2) => {
+				trail.push_str(&format!("[still failing ({}) without the triggers of {} {}] ", f2.kind, c.name, c.detail));
+				cur = s2;
+				if f2.at < cur.ops.len() {
+					cur.ops.truncate(f2.at + 1);
+				}
+				fail = f2;
+			}
+		}
+	}
+}
+
+/// greedy removal of operations / effects while the failure kind stays the same
+fn minimise(sc: &Scene, fail: &Fail, secs: f64, hangs_left: &mut u32) -> Scene {
+	let mut cur = sc.clone();
+	let mut budget = 250;
+	let same = |s: &Scene, budget: &mut i32, hl: &mut u32| -> bool {
+		*budget -= 1;
+		matches!(outcome(s, secs, hl).1, Some(f) if f.kind == fail.kind)
+	};
+	let mut i = cur.ops.len();
+	while i > 0 && budget > 0 {
+		i -= 1;
+		if i + 1 == cur.ops.len() {
+			continue; // the failing callback itself
+		}
+		let mut s2 = cur.clone();
+		s2.ops.remove(i);
+		if same(&s2, &mut budget, hangs_left) {
+			cur = s2;
+		}
+	}
+	let mut j = cur.main_fx.len();
+	while j > 0 && budget > 0 {
+		j -= 1;
+		let mut s2 = cur.clone();
+		s2.main_fx.remove(j);
+		if same(&s2, &mut budget, hangs_left) {
+			cur = s2;
+		}
+	}
+	for k in 0..cur.ops.len() {
+		loop {
+			let n = if let Op::AddSub(s) = &cur.ops[k] { s.fx.len() } else { 0 };
+			let mut removed = false;
+			for j in (0..n).rev() {
+				if budget <= 0 {
+					break;
+				}
+				let mut s2 = cur.clone();
+				if let Op::AddSub(s) = &mut s2.ops[k] {
+					s.fx.remove(j);
+				}
+				if same(&s2, &mut budget, hangs_left) {
+					cur = s2;
+					removed = true;
+					break;
+				}
+			}
+			if !removed {
+				break;
+			}
+		}
+	}
+	cur
+}
+
+// ------------------------------------------------------------------------------------------------
+// generators
+// ------------------------------------------------------------------------------------------------
+struct Gen<'a> {
+	r: &'a mut Rng,
+	boundary: bool,
+	/// classes listed in known_findings.json: their triggers are only drawn when listed (a trigger of a
+	/// finding that is not listed yet is exercised by the witness corpus and reported there)
+	listed: &'a BTreeSet<String>,
+}
+impl<'a> Gen<'a> {
+	fn on(&self, class: &str) -> bool {
+		self.listed.contains(class)
 	}
 	/// decibel values: documented range plus finite extremes
 	fn db(&mut self) -> f32 {
 		if self.boundary && self.r.chance(1, 5) {
 			let v = *self.r.pick(&[-60.0f32, -59.999996, -60.000004, -100.0, -1e30, 0.0, -0.0, 6.0, 24.0, 100.0, 700.0, 1000.0, 3e38, -3e38, 1e-40]);
-			if v > 600.0 {
-				self.hazard(HZ_GAIN);
+			if amp(v).is_infinite() && !self.on(HZ_GAIN) {
+				return 24.0;
+			}
+			if v == 700.0 && !self.on(HZ_CHAIN) {
+				return 100.0;
 			}
 			v
 		} else {
@@ -87,25 +1404,22 @@ impl<'a> Gen<'a> {
 	fn pan(&mut self) -> f32 {
 		if self.boundary && self.r.chance(1, 4) {
 			*self.r.pick(&[0.0f32, -1.0, 1.0, -0.0, 3.0, -3.0, 1e30, -1e30, 1e-40])
+		} else if self.r.chance(1, 8) {
+			*self.r.pick(&[-1.0f32, 1.0, 0.0])
 		} else {
 			(self.r.unit_f64() * 2.0 - 1.0) as f32
 		}
 	}
 	fn freq(&mut self) -> f64 {
 		if self.boundary && self.r.chance(1, 4) {
-			self.hazard(HZ_PARAM);
 			*self.r.pick(&[0.0, -0.0, 1e-300, 20.0, 20000.0, 1e6, 1e300, -100.0, 22050.0, 24000.0])
 		} else {
-			20.0 * (1000.0f64).powf(self.r.unit_f64())
+			20.0 * (1000.0f64).powf(self.r.unit_f64()) * 0.19
 		}
 	}
 	fn unit(&mut self) -> f64 {
 		if self.boundary && self.r.chance(1, 4) {
-			let v = *self.r.pick(&[0.0, 1.0, -0.0, -1.0, 2.0, 1e300, -1e300, 0.999999, 1e-300]);
-			if !(0.0..=0.95).contains(&v) || v == 0.0 {
-				self.hazard(HZ_PARAM);
-			}
-			v
+			*self.r.pick(&[0.0, 1.0, -0.0, -1.0, 2.0, 1e300, -1e300, 0.999999, 1e-300])
 		} else {
 			0.05 + 0.85 * self.r.unit_f64()
 		}
@@ -121,8 +1435,9 @@ impl<'a> Gen<'a> {
 		}
 	}
 	fn easing(&mut self) -> Easing {
-		let pi = if self.boundary { self.r.range(-3, 9) as i32 } else { self.r.range(1, 5) as i32 };
-		let pf = if self.boundary { *self.r.pick(&[0.0, -1.0, 0.5, 2.0, 1e300, 1e-300]) } else { *self.r.pick(&[0.5, 1.0, 2.0, 3.0]) };
+		let neg = self.boundary && self.on(HZ_EASING);
+		let pi = if self.boundary { self.r.range(if neg { -3 } else { 0 }, 9) as i32 } else { self.r.range(1, 5) as i32 };
+		let pf = if self.boundary { *self.r.pick(&[0.0, if neg { -1.0 } else { 0.25 }, 0.5, 2.0, 1e300, 1e-300]) } else { *self.r.pick(&[0.5, 1.0, 2.0, 3.0]) };
 		match self.r.below(8) {
 			0 => Easing::InPowi(pi),
 			1 => Easing::OutPowi(pi),
@@ -133,36 +1448,35 @@ impl<'a> Gen<'a> {
 			_ => Easing::Linear,
 		}
 	}
-	fn tween(&mut self) -> Tween {
-		let start_time = match self.r.below(5) {
-			0 => StartTime::Delayed(self.dur()),
-			_ => StartTime::Immediate,
-		};
-		Tween { start_time, duration: self.dur(), easing: self.easing() }
+	fn st(&mut self) -> St {
+		match self.r.below(8) {
+			0 => St::Delayed(self.dur()),
+			1 => St::Clock { sel: self.r.next(), ticks: self.r.below(4) },
+			_ => St::Immediate,
+		}
+	}
+	fn tw(&mut self) -> Tw {
+		Tw { st: self.st(), dur: self.dur(), easing: self.easing() }
 	}
 	fn rate(&mut self) -> f64 {
 		if self.boundary && self.r.chance(1, 4) {
-			let v = *self.r.pick(&[0.0, -0.0, 1.0, -1.0, 1e-300, 0.5, 2.0, 64.0, 1e6, -1e6]);
+			let v = *self.r.pick(&[0.0, -0.0, 1.0, -1.0, 1e-300, 0.5, 2.0, 64.0, -64.0, -2.0]);
+			if self.on(HZ_RATE_COST) && self.r.chance(1, 12) {
+				return *self.r.pick(&[1e6, -1e6]);
+			}
 			v
-		} else if self.allow_hang && self.r.chance(1, 30) {
-			self.hazard(HZ_RATE);
-			*self.r.pick(&[1e300, -1e300, 1e16])
 		} else {
-			*self.r.pick(&[1.0, 1.0, 0.5, 2.0, -1.0, 1.5, 0.25, 3.0])
+			*self.r.pick(&[1.0, 1.0, 0.5, 2.0, -1.0, 1.5, 0.25, 3.0, -0.5])
 		}
 	}
 	fn clock_speed(&mut self) -> ClockSpeed {
-		if self.allow_hang && self.r.chance(1, 20) {
-			self.hazard(HZ_CLOCK);
-			return *self.r.pick(&[ClockSpeed::SecondsPerTick(0.0), ClockSpeed::TicksPerSecond(1e300), ClockSpeed::TicksPerMinute(1e300)]);
-		}
 		if self.boundary && self.r.chance(1, 3) {
-			*self.r.pick(&[ClockSpeed::TicksPerSecond(0.0), ClockSpeed::TicksPerSecond(-5.0), ClockSpeed::SecondsPerTick(1e300), ClockSpeed::SecondsPerTick(-1.0), ClockSpeed::TicksPerMinute(0.0), ClockSpeed::TicksPerSecond(1e9)])
+			*self.r.pick(&[ClockSpeed::TicksPerSecond(0.0), ClockSpeed::TicksPerSecond(-5.0), ClockSpeed::SecondsPerTick(1e300), ClockSpeed::SecondsPerTick(-1.0), ClockSpeed::TicksPerMinute(0.0), ClockSpeed::TicksPerSecond(1e4)])
 		} else {
 			ClockSpeed::TicksPerSecond(1.0 + self.r.unit_f64() * 200.0)
 		}
 	}
-	fn frames(&mut self, sr: u32) -> Vec<Frame> {
+	fn frames(&mut self) -> FramesSpec {
 		let n = match self.r.below(8) {
 			0 => 0,
 			1 => 1,
@@ -170,398 +1484,372 @@ impl<'a> Gen<'a> {
 			3 => 3,
 			_ => self.r.below(300) as usize + 4,
 		};
-		let kind = self.r.below(if self.boundary { 7 } else { 4 });
-		let _ = sr;
-		(0..n)
-			.map(|i| {
-				let x = match kind {
-					0 => (self.r.unit_f64() * 2.0 - 1.0) as f32,
-					1 => 1.0,
-					2 => if i % 2 == 0 { 1.0 } else { -1.0 },
-					3 => ((i as f32) * 0.1).sin(),
-					4 => 1e-40,
-					5 => if self.r.chance(1, 2) { 8.0 } else { -8.0 },
-					_ => {
-						self.hazard(HZ_SAMPLES);
-						if i % 2 == 0 { 3e38 } else { -3e38 }
-					}
+		let mut kind = if self.boundary { *self.r.pick(&[0u8, 1, 2, 3, 4, 5, 6, 7, 7, 8]) } else { *self.r.pick(&[0u8, 1, 2, 3, 7, 0, 3]) };
+		if kind == 6 && !self.on(HZ_SAMPLES) {
+			kind = 5;
+		}
+		FramesSpec { n, kind, seed: self.r.next() }
+	}
+	fn pos(&mut self) -> [f32; 3] {
+		[self.pan() * 10.0, self.pan(), self.pan() * 10.0]
+	}
+	fn fx(&mut self, allow_link: bool) -> Fx {
+		match self.r.below(9) {
+			0 => Fx::Filter { mode: *self.r.pick(&[FilterMode::LowPass, FilterMode::BandPass, FilterMode::HighPass, FilterMode::Notch]), cutoff: self.freq(), linked: allow_link && self.r.chance(1, 3), res: self.unit(), mix: self.mix() },
+			1 => Fx::Eq { kind: *self.r.pick(&[EqFilterKind::Bell, EqFilterKind::LowShelf, EqFilterKind::HighShelf]), f: self.freq(), gain: self.db(), q: 0.1 + self.unit() * 4.0 },
+			2 => {
+				let time = match self.r.below(if self.boundary { 5 } else { 3 }) {
+					0 => Duration::from_micros(self.r.below(30_000) + 100),
+					1 => Duration::from_millis(self.r.below(40) + 1),
+					2 => Duration::from_micros(self.r.below(2000)),
+					3 => Duration::ZERO,
+					_ => Duration::from_nanos(1),
 				};
-				Frame::new(x, if self.r.chance(1, 4) { -x } else { x })
-			})
-			.collect()
-	}
-}
-
-enum H {
-	Sound(StaticSoundHandle),
-	Track(TrackHandle),
-	Spatial(SpatialTrackHandle),
-	Send(SendTrackHandle),
-	Clock(ClockHandle),
-	Lfo(LfoHandle),
-	Tweener(TweenerHandle),
-	Listener(ListenerHandle),
-}
-
-fn add_effects_main(g: &mut Gen, mut b: MainTrackBuilder, n: usize) -> MainTrackBuilder {
-	for _ in 0..n {
-		b = match g.r.below(8) {
-			0 => { let (m, c, q, x) = (mode(g), g.freq(), g.unit(), g.mix()); g.note(format!("main fx filter {m:?} cutoff {c:e} res {q:e} mix {x:e}")); b.with_effect(FilterBuilder::new().mode(m).cutoff(c).resonance(q).mix(Mix(x))) }
-			1 => { let (k, f, d, q) = (eqkind(g), g.freq(), g.db(), 0.1 + g.unit() * 4.0); g.note(format!("main fx eq {k:?} f {f:e} gain {d:e} q {q:e}")); b.with_effect(EqFilterBuilder::new(k, f, Decibels(d), q)) }
-			2 => { let d = delay(g); b.with_effect(d) }
-			3 => { let (a, d, w, x) = (g.unit(), g.unit(), g.unit(), g.mix()); g.note(format!("main fx reverb fb {a:e} damp {d:e} width {w:e} mix {x:e}")); b.with_effect(ReverbBuilder::new().feedback(a).damping(d).stereo_width(w).mix(Mix(x))) }
-			4 => { let c = compressor(g); b.with_effect(c) }
-			5 => { let (k, d, x) = (if g.r.chance(1, 2) { DistortionKind::HardClip } else { DistortionKind::SoftClip }, g.db(), g.mix()); g.note(format!("main fx distortion {k:?} drive {d:e} mix {x:e}")); b.with_effect(DistortionBuilder::new().kind(k).drive(Decibels(d)).mix(Mix(x))) }
-			6 => { let d = g.db(); g.note(format!("main fx volume {d:e}")); b.with_effect(VolumeControlBuilder::new(Decibels(d))) }
-			_ => { let p = g.pan(); g.note(format!("main fx pan {p:e}")); b.with_effect(PanningControlBuilder(Value::Fixed(Panning(p)))) }
-		};
-	}
-	b
-}
-fn add_effects_sub(g: &mut Gen, mut b: TrackBuilder, n: usize, link: Option<Value<f64>>) -> TrackBuilder {
-	for _ in 0..n {
-		b = match g.r.below(8) {
-			0 => { let (m, c, q, x) = (mode(g), g.freq(), g.unit(), g.mix()); g.note(format!("fx filter {m:?} cutoff {c:e} res {q:e} mix {x:e} linked {}", link.is_some())); let c: Value<f64> = link.unwrap_or(Value::Fixed(c)); b.with_effect(FilterBuilder::new().mode(m).cutoff(c).resonance(q).mix(Mix(x))) }
-			1 => { let (k, f, d, q) = (eqkind(g), g.freq(), g.db(), 0.1 + g.unit() * 4.0); g.note(format!("fx eq {k:?} f {f:e} gain {d:e} q {q:e}")); b.with_effect(EqFilterBuilder::new(k, f, Decibels(d), q)) }
-			2 => { let d = delay(g); b.with_effect(d) }
-			3 => { let (a, d, w, x) = (g.unit(), g.unit(), g.unit(), g.mix()); g.note(format!("fx reverb fb {a:e} damp {d:e} width {w:e} mix {x:e}")); b.with_effect(ReverbBuilder::new().feedback(a).damping(d).stereo_width(w).mix(Mix(x))) }
-			4 => { let c = compressor(g); b.with_effect(c) }
-			5 => { let (k, d, x) = (if g.r.chance(1, 2) { DistortionKind::HardClip } else { DistortionKind::SoftClip }, g.db(), g.mix()); g.note(format!("fx distortion {k:?} drive {d:e} mix {x:e}")); b.with_effect(DistortionBuilder::new().kind(k).drive(Decibels(d)).mix(Mix(x))) }
-			6 => { let d = g.db(); g.note(format!("fx volume {d:e}")); b.with_effect(VolumeControlBuilder::new(Decibels(d))) }
-			_ => { let p = g.pan(); g.note(format!("fx pan {p:e}")); b.with_effect(PanningControlBuilder(Value::Fixed(Panning(p)))) }
-		};
-	}
-	b
-}
-fn mode(g: &mut Gen) -> FilterMode {
-	*g.r.pick(&[FilterMode::LowPass, FilterMode::BandPass, FilterMode::HighPass, FilterMode::Notch])
-}
-fn eqkind(g: &mut Gen) -> EqFilterKind {
-	*g.r.pick(&[EqFilterKind::Bell, EqFilterKind::LowShelf, EqFilterKind::HighShelf])
-}
-fn delay(g: &mut Gen) -> DelayBuilder {
-	let t = match g.r.below(if g.boundary { 5 } else { 3 }) {
-		0 => Duration::from_micros(g.r.below(30_000) + 100),
-		1 => Duration::from_millis(g.r.below(40) + 1),
-		2 => Duration::from_micros(g.r.below(2000)),
-		3 => Duration::ZERO,
-		_ => Duration::from_nanos(1),
-	};
-	let fb0 = g.db().min(24.0);
-	let fb = if g.boundary { if fb0 > -1.0 { g.hazard(HZ_PARAM); } fb0 } else { fb0.min(-1.0) };
-	let x = g.mix();
-	g.note(format!("fx delay {t:?} feedback {fb:e} mix {x:e}"));
-	let mut d = DelayBuilder::new().delay_time(t).feedback(Decibels(fb)).mix(Mix(x));
-	if g.r.chance(1, 3) {
-		let (c, q) = (g.freq(), g.unit());
-		g.note(format!("   feedback fx filter cutoff {c:e} res {q:e}"));
-		d = d.with_feedback_effect(FilterBuilder::new().cutoff(c).resonance(q));
-	}
-	d
-}
-fn compressor(g: &mut Gen) -> CompressorBuilder {
-	let thr = if g.boundary && g.r.chance(1, 3) { g.hazard(HZ_PARAM); *g.r.pick(&[0.0, -0.0, -1e300, 1e300, -60.0, 10.0]) } else { -g.r.unit_f64() * 40.0 };
-	let ratio = if g.boundary && g.r.chance(1, 3) { g.hazard(HZ_PARAM); *g.r.pick(&[0.0, -0.0, 1.0, -1.0, 1e300, 1e-300, 0.5]) } else { 1.0 + g.r.unit_f64() * 10.0 };
-	let (a, rl, mk, x) = (g.dur(), g.dur(), g.db().min(24.0), g.mix());
-	g.note(format!("fx compressor thr {thr:e} ratio {ratio:e} attack {a:?} release {rl:?} makeup {mk:e} mix {x:e}"));
-	CompressorBuilder::new().threshold(thr).ratio(ratio).attack_duration(a).release_duration(rl).makeup_gain(Decibels(mk)).mix(Mix(x))
-}
-
-#[derive(Debug)]
-struct SceneResult {
-	what: Option<String>, // first property failure
-	kind: &'static str,   // "" | panic | nan | range | layout | alloc
-	callbacks: usize,
-	samples: u64,
-}
-
-/// Builds and runs one scene on this thread; returns the first failure (if any).
-fn run_scene(seed: u64, boundary: bool, allow_hang: bool, log_out: &mut Vec<String>, hazards_out: &mut Vec<&'static str>, tx: Option<mpsc::Sender<Msg>>) -> SceneResult {
-	let mut rng = Rng::new(seed);
-	let mut g = Gen { tx, r: &mut rng, boundary, hazards: vec![], allow_hang, log: vec![] };
-	let sr = if boundary { *g.r.pick(&[8000u32, 22050, 44100, 48000, 96000, 192000, 1000, 1, 100]) } else { *g.r.pick(&[8000u32, 22050, 44100, 48000, 96000, 192000]) };
-	if sr < 8000 {
-		g.hazard(HZ_PARAM);
-	}
-	let ibs = *g.r.pick(&[1usize, 2, 7, 16, 64, 128, 256]);
-	let caps = Capacities {
-		sub_track_capacity: g.r.below(5) as usize + if boundary { 0 } else { 2 },
-		send_track_capacity: g.r.below(3) as usize + if boundary { 0 } else { 1 },
-		clock_capacity: g.r.below(3) as usize + if boundary { 0 } else { 1 },
-		modulator_capacity: g.r.below(4) as usize + if boundary { 0 } else { 1 },
-		listener_capacity: g.r.below(2) as usize + if boundary { 0 } else { 1 },
-	};
-	g.note(format!("sample rate {sr}, internal buffer {ibs}, capacities {caps:?}"));
-	let nfx = g.r.below(3) as usize;
-	let main_vol = g.db();
-	g.note(format!("main volume {main_vol:e}"));
-	let main_cap = g.r.below(6) as usize + if boundary { 0 } else { 2 };
-	let main = add_effects_main(&mut g, MainTrackBuilder::new().volume(Decibels(main_vol)).sound_capacity(main_cap), nfx);
-	let mut res = SceneResult { what: None, kind: "", callbacks: 0, samples: 0 };
-	let built = catch(|| manager(sr, ibs, caps, main));
-	let mut m = match built {
-		Outcome::Ok(m) => m,
-		_ => {
-			res.what = Some(format!("AudioManager::new panicked: {}", last_panic()));
-			res.kind = "panic";
-			*log_out = g.log.clone();
-			*hazards_out = g.hazards.clone();
-			return res;
-		}
-	};
-	let mut hs: Vec<H> = vec![];
-	let nops = g.r.range(6, 30);
-	for _ in 0..nops {
-		if res.what.is_some() {
-			break;
-		}
-		let op = g.r.below(20);
-		let r = catch(|| -> Option<String> {
-			match op {
-				0 | 1 | 2 => {
-					// play a sound on the main track or a sub track
-					let fr = g.frames(sr);
-					let ssr = *g.r.pick(&[sr, 44100, 22050, 8000, 1]);
-					let rate = g.rate();
-					if rate.abs() * ssr as f64 / sr as f64 > 1000.0 {
-						g.hazard(HZ_RATE_COST);
-					}
-					let mut st = StaticSoundSettings::new().volume(Decibels(g.db())).panning(Panning(g.pan())).playback_rate(PlaybackRate(rate)).reverse(g.r.chance(1, 5));
-					if g.r.chance(1, 3) {
-						let (a, b) = (g.r.unit_f64() * 0.01, g.r.unit_f64() * 0.01);
-						let (a, b) = if g.boundary && g.r.chance(1, 3) { (a, a) } else if g.boundary && g.r.chance(1, 3) { (a.max(b), a.min(b)) } else { (a.min(b), a.max(b) + 1e-4) };
-						st = st.loop_region(Region::from(a..b));
-						g.note(format!("   loop {a:e}..{b:e}"));
-					}
-					if g.r.chance(1, 4) {
-						st = st.start_position(PlaybackPosition::Samples(g.r.below(fr.len() as u64 + 3) as usize));
-					}
-					if g.r.chance(1, 5) {
-						st = st.fade_in_tween(g.tween());
-					}
-					if g.r.chance(1, 6) {
-						st = st.start_time(StartTime::Delayed(g.dur()));
-					}
-					g.note(format!("play sound {} frames at {ssr} Hz, settings vol/pan/rate as drawn", fr.len()));
-					let mut data = sound_from_frames(ssr.max(1), fr);
-					data.settings = st;
-					if g.boundary && g.r.chance(1, 6) {
-						let n = data.frames.len();
-						data.slice = Some((g.r.below(n as u64 + 3) as usize, g.r.below(n as u64 + 5) as usize));
-						g.note(format!("   slice {:?}", data.slice));
-					}
-					let tracks: Vec<usize> = hs.iter().enumerate().filter(|(_, h)| matches!(h, H::Track(_))).map(|(i, _)| i).collect();
-					let hnd = if !tracks.is_empty() && g.r.chance(1, 2) {
-						let i = *g.r.pick(&tracks);
-						if let H::Track(t) = &mut hs[i] { t.play(data).ok() } else { None }
-					} else {
-						m.play(data).ok()
-					};
-					if let Some(h) = hnd {
-						hs.push(H::Sound(h));
-					}
-				}
-				3 | 4 => {
-					let lfo = hs.iter().find_map(|h| if let H::Lfo(l) = h { Some(l.id()) } else { None });
-					let link = lfo.filter(|_| g.r.chance(1, 2)).map(|id| Value::FromModulator { id, mapping: Mapping { input_range: (-1.0, 1.0), output_range: (100.0, 8000.0), easing: Easing::Linear } });
-					let n = g.r.below(3) as usize;
-					let vol = g.db();
-					g.note(format!("add sub track volume {vol:e}"));
-					let (cap, persist) = (g.r.below(4) as usize + 1, g.r.chance(1, 3));
-					let mut b = add_effects_sub(&mut g, TrackBuilder::new().volume(Decibels(vol)).sound_capacity(cap).persist_until_sounds_finish(persist), n, link);
-					if let Some(sid) = hs.iter().find_map(|h| if let H::Send(s) = h { Some(s.id()) } else { None }) {
-						if g.r.chance(1, 2) {
-							b = b.with_send(sid, Decibels(g.db()));
-						}
-					}
-					let parent: Vec<usize> = hs.iter().enumerate().filter(|(_, h)| matches!(h, H::Track(_))).map(|(i, _)| i).collect();
-					let t = if !parent.is_empty() && g.r.chance(1, 3) {
-						let i = *g.r.pick(&parent);
-						if let H::Track(p) = &mut hs[i] { p.add_sub_track(b).ok() } else { None }
-					} else {
-						m.add_sub_track(b).ok()
-					};
-					if let Some(t) = t {
-						hs.push(H::Track(t));
-					}
-				}
-				5 => {
-					let vol = g.db();
-					g.note(format!("add send track volume {vol:e}"));
-					if let Ok(s) = m.add_send_track(SendTrackBuilder::new().volume(Decibels(vol)).with_effect(ReverbBuilder::new().mix(Mix(1.0)))) {
-						hs.push(H::Send(s));
-					}
-				}
-				6 => {
-					let sp = g.clock_speed();
-					g.note(format!("add clock {sp:?}"));
-					if let Ok(mut c) = m.add_clock(sp) {
-						if g.r.chance(3, 4) {
-							c.start();
-						}
-						hs.push(H::Clock(c));
-					}
-				}
-				7 => {
-					let (f, a, o, ph) = (g.freq().min(1e6), g.unit() * 2.0, g.unit(), (g.r.unit_f64() - 0.5) * 20.0);
-					let w = *g.r.pick(&[Waveform::Sine, Waveform::Triangle, Waveform::Saw, Waveform::Pulse { width: 0.3 }]);
-					g.note(format!("add lfo {w:?} f {f:e} amp {a:e} offset {o:e} phase {ph:e}"));
-					if let Ok(l) = m.add_modulator(LfoBuilder::new().waveform(w).frequency(f).amplitude(a).offset(o).starting_phase(ph)) {
-						hs.push(H::Lfo(l));
-					}
-				}
-				8 => {
-					if let Ok(t) = m.add_modulator(TweenerBuilder { initial_value: g.unit() }) {
-						hs.push(H::Tweener(t));
-					}
-				}
-				9 => {
-					let p = [g.pan() * 10.0, g.pan(), g.pan() * 10.0];
-					g.note(format!("add listener at {p:?}"));
-					if let Ok(l) = m.add_listener(p, [0.0f32, 0.0, 0.0, 1.0]) {
-						hs.push(H::Listener(l));
-					}
-				}
-				10 => {
-					if let Some(lid) = hs.iter().find_map(|h| if let H::Listener(l) = h { Some(l.id()) } else { None }) {
-						let p = [g.pan() * 10.0, g.pan(), g.pan() * 10.0];
-						let (d0, d1) = (g.unit() as f32 * 5.0, g.unit() as f32 * 50.0);
-						let s = g.mix();
-						g.note(format!("add spatial track at {p:?} distances ({d0:e},{d1:e}) strength {s:e}"));
-						if let Ok(mut t) = m.add_spatial_sub_track(lid, p, SpatialTrackBuilder::new().distances((d0, d1)).spatialization_strength(s).attenuation_function(if g.r.chance(1, 3) { None } else { Some(g.easing()) })) {
-							let fr = g.frames(sr);
-							let _ = t.play(sound_from_frames(sr, fr));
-							hs.push(H::Spatial(t));
-						}
-					}
-				}
-				11 | 12 | 13 => {
-					// command on a random handle
-					if !hs.is_empty() {
-						let i = g.r.below(hs.len() as u64) as usize;
-						let tw = g.tween();
-						g.note(format!("   tween {tw:?}"));
-						match &mut hs[i] {
-							H::Sound(s) => match g.r.below(9) {
-								0 => s.pause(tw),
-								1 => s.resume(tw),
-								2 => s.stop(tw),
-								3 => s.set_volume(Decibels(g.db()), tw),
-								4 => {
-									let rate = g.rate();
-									if rate.abs() * 192000.0 / sr as f64 > 1000.0 {
-										g.hazard(HZ_RATE_COST);
-									}
-									s.set_playback_rate(PlaybackRate(rate), tw)
-								}
-								5 => s.set_panning(Panning(g.pan()), tw),
-								6 => s.seek_to(g.unit() * 0.02),
-								7 => s.seek_by((g.unit() - 0.5) * 0.02),
-								_ => {
-									let a = g.unit() * 0.005;
-									s.set_loop_region(Region::from(a..a + 0.002))
-								}
-							},
-							H::Track(t) => match g.r.below(3) {
-								0 => t.pause(tw),
-								1 => t.resume(tw),
-								_ => t.set_volume(Decibels(g.db()), tw),
-							},
-							H::Spatial(t) => match g.r.below(3) {
-								0 => t.set_position([g.pan() * 10.0, 0.0, g.pan() * 10.0], tw),
-								1 => t.set_spatialization_strength(g.mix(), tw),
-								_ => t.set_volume(Decibels(g.db()), tw),
-							},
-							H::Send(s) => s.set_volume(Decibels(g.db()), tw),
-							H::Clock(c) => match g.r.below(4) {
-								0 => c.pause(),
-								1 => c.stop(),
-								2 => c.start(),
-								_ => c.set_speed(g.clock_speed(), tw),
-							},
-							H::Lfo(l) => match g.r.below(3) {
-								0 => l.set_frequency(g.freq().min(1e6), tw),
-								1 => l.set_amplitude(g.unit() * 2.0, tw),
-								_ => l.set_phase((g.r.unit_f64() - 0.5) * 20.0),
-							},
-							H::Tweener(t) => t.set(g.unit() * 2.0 - 1.0, tw),
-							H::Listener(l) => l.set_position([g.pan() * 10.0, 0.0, g.pan()], tw),
-						}
-						g.note(format!("command on handle {i}"));
-					}
-				}
-				14 => {
-					if !hs.is_empty() {
-						let i = g.r.below(hs.len() as u64) as usize;
-						hs.swap_remove(i);
-						g.note(format!("drop handle {i}"));
-					}
-				}
-				_ => {
-					// a device callback
-					let frames = match g.r.below(6) {
-						0 => 1,
-						1 => ibs,
-						2 => ibs + 1,
-						3 => g.r.below(5) as usize,
-						_ => g.r.below(3 * ibs as u64 + 40) as usize,
-					};
-					let ch = if g.r.chance(1, 2) { 2 } else { g.r.range(1, 8) as u16 };
-					g.note(format!("callback {frames} frames x {ch} channels"));
-					let mut out = vec![f32::from_bits(0x7FC0_1234); frames * ch as usize];
-					let be = m.backend_mut();
-					let (_, allocs, frees) = counted(|| {
-						be.r().on_start_processing();
-						be.r().process(&mut out, ch);
-					});
-					if allocs != 0 || frees != 0 {
-						return Some(format!("alloc|callback allocated {allocs} / freed {frees} heap blocks on the audio thread"));
-					}
-					for (k, x) in out.iter().enumerate() {
-						if x.to_bits() == 0x7FC0_1234 {
-							return Some(format!("layout|sample {k} of the device buffer was not written"));
-						}
-						if !x.is_finite() {
-							return Some(format!("nan|sample {k} of a callback is {x:?}"));
-						}
-						if !(*x >= -1.0 && *x <= 1.0) {
-							return Some(format!("range|sample {k} of a callback is {x:?}, outside [-1, 1]"));
-						}
-						if ch > 2 && (k % ch as usize) >= 2 && x.to_bits() != 0 {
-							return Some(format!("layout|extra channel {} carries {x:?}", k % ch as usize));
-						}
-					}
-					return Some(format!("ok|{}", out.len()));
-				}
+				let fb0 = self.db().min(24.0);
+				let fb = if self.boundary { fb0 } else { fb0.min(-1.0) };
+				let fbfx = if self.r.chance(1, 3) { Some((self.freq(), self.unit())) } else { None };
+				Fx::Delay { time, fb, mix: self.mix(), fbfx }
 			}
+			3 => Fx::Reverb { fb: self.unit(), damp: self.unit(), width: self.unit(), mix: self.mix() },
+			4 => {
+				let thr = if self.boundary && self.r.chance(1, 3) { *self.r.pick(&[0.0, -0.0, if self.on(HZ_COMP_THR) { -1e300 } else { -1e30 }, if self.on(HZ_COMP_THR) { 1e300 } else { 1e30 }, -60.0, 10.0]) } else { -self.r.unit_f64() * 40.0 };
+				let ratio = if self.boundary && self.r.chance(1, 3) { *self.r.pick(&[0.0, -0.0, 1.0, -1.0, 1e300, 1e-300, 0.5]) } else { 1.0 + self.r.unit_f64() * 10.0 };
+				Fx::Compressor { thr, ratio, attack: self.dur(), release: self.dur(), makeup: self.db().min(24.0), mix: self.mix() }
+			}
+			5 => Fx::Distortion { kind: if self.r.chance(1, 2) { DistortionKind::HardClip } else { DistortionKind::SoftClip }, drive: self.db(), mix: self.mix() },
+			6 => Fx::Volume(self.db()),
+			7 => Fx::Pan(self.pan()),
+			_ => Fx::Probe,
+		}
+	}
+	fn play(&mut self, sr: u32) -> PlaySpec {
+		let frames = self.frames();
+		let ssr = *self.r.pick(&[sr, 44100, 22050, 8000, 1]);
+		let rate = self.rate();
+		let (vol, pan, reverse) = (self.db(), self.pan(), self.r.chance(1, 5));
+		let looped = if self.r.chance(1, 3) {
+			let (a, b) = (self.r.unit_f64() * 0.01, self.r.unit_f64() * 0.01);
+			Some(if self.boundary && self.r.chance(1, 3) { (a, a) } else if self.boundary && self.r.chance(1, 3) { (a.max(b), a.min(b)) } else { (a.min(b), a.max(b) + 1e-4) })
+		} else {
 			None
-		});
-		match r {
-			Outcome::Ok(Some(s)) => {
-				let (k, w) = s.split_once('|').unwrap();
-				if k == "ok" {
-					res.callbacks += 1;
-					res.samples += w.parse::<u64>().unwrap_or(0);
+		};
+		let start = if self.r.chance(1, 4) { Some(self.r.below(frames.n as u64 + 3) as usize) } else { None };
+		let fade_in = if self.r.chance(1, 5) { Some(self.tw()) } else { None };
+		let start_time = if self.r.chance(1, 5) { self.st() } else { St::Immediate };
+		let slice = if self.boundary && self.r.chance(1, 6) { Some((self.r.below(frames.n as u64 + 3) as usize, self.r.below(frames.n as u64 + 5) as usize)) } else { None };
+		let on = if self.r.chance(1, 2) { Some(self.r.next()) } else { None };
+		PlaySpec { frames, ssr, vol, pan, rate, reverse, looped, start, fade_in, start_time, slice, on }
+	}
+	fn callback(&mut self, ibs: usize) -> Op {
+		let frames = match self.r.below(6) {
+			0 => 1,
+			1 => ibs,
+			2 => ibs + 1,
+			3 => self.r.below(5) as usize,
+			_ => self.r.below(3 * ibs as u64 + 40) as usize,
+		};
+		let ch = if self.r.chance(1, 2) { 2 } else { self.r.range(1, 8) as u16 };
+		Op::Callback { frames, ch }
+	}
+	fn cmd(&mut self) -> CmdSpec {
+		CmdSpec { sel: self.r.next(), which: self.r.next(), tw: self.tw(), db: self.db(), rate: self.rate(), pan: self.pan(), u: self.unit(), mixv: self.mix(), speed: self.clock_speed(), freq: self.freq(), pos: self.pos() }
+	}
+	fn sub(&mut self) -> SubSpec {
+		let n = self.r.below(3) as usize;
+		SubSpec {
+			vol: self.db(),
+			cap: self.r.below(4) as usize + 1,
+			sub_cap: self.r.below(3) as usize + if self.boundary { 0 } else { 1 },
+			persist: self.r.chance(1, 3),
+			fx: (0..n).map(|_| self.fx(true)).collect(),
+			keep_fx_handles: self.r.chance(1, 2),
+			send: if self.r.chance(1, 2) { Some(self.db()) } else { None },
+			parent: if self.r.chance(1, 3) { Some(self.r.next()) } else { None },
+		}
+	}
+	fn header(&mut self) -> Scene {
+		let boundary = self.boundary;
+		let sr = if boundary { *self.r.pick(&[8000u32, 22050, 44100, 48000, 96000, 192000, 1000, 1, 100]) } else { *self.r.pick(&[8000u32, 22050, 44100, 48000, 96000, 192000]) };
+		let ibs = *self.r.pick(&[1usize, 2, 7, 16, 64, 128, 256]);
+		let z = if boundary { 0 } else { 1 };
+		let caps = [self.r.below(5) as usize + 2 * z, self.r.below(3) as usize + z, self.r.below(3) as usize + z, self.r.below(4) as usize + z, self.r.below(2) as usize + z];
+		let nfx = self.r.below(3) as usize;
+		let main_vol = if self.r.chance(1, 2) { 0.0 } else { self.db() };
+		let main_cap = self.r.below(6) as usize + 2 * z;
+		let main_fx = (0..nfx).map(|_| self.fx(false)).collect();
+		Scene { sr, ibs, caps, main_vol, main_cap, main_fx, ops: vec![] }
+	}
+	fn op(&mut self, sc: &Scene) -> Op {
+		match self.r.below(22) {
+			0 | 1 | 2 => Op::Play(self.play(sc.sr)),
+			3 | 4 => Op::AddSub(self.sub()),
+			5 => Op::AddSend { vol: self.db(), probe: self.r.chance(1, 2) },
+			6 => Op::AddClock { speed: self.clock_speed(), start: self.r.chance(3, 4) },
+			7 => Op::AddLfo { wave: self.r.below(4) as u8, f: self.freq().min(1e6), amp: self.unit() * 2.0, offset: self.unit(), phase: (self.r.unit_f64() - 0.5) * 20.0 },
+			8 => {
+				if self.r.chance(1, 2) {
+					Op::AddTweener { init: self.unit() }
 				} else {
-					res.kind = match k {
-						"alloc" => "alloc",
-						"nan" => "nan",
-						"range" => "range",
-						_ => "layout",
-					};
-					res.what = Some(w.to_string());
+					Op::AddProbeMod { len: self.r.below(6) }
 				}
 			}
-			Outcome::Ok(None) => {}
+			9 => Op::AddListener { pos: self.pos() },
+			10 => Op::AddSpatial {
+				pos: self.pos(),
+				d0: self.unit().clamp(-1e30, 1e30) as f32 * 5.0,
+				d1: self.unit().clamp(-1e30, 1e30) as f32 * 50.0,
+				strength: self.mix(),
+				atten: if self.r.chance(1, 3) { None } else { Some(self.easing()) },
+				frames: self.frames(),
+				vol: self.db(),
+			},
+			11 | 12 | 13 => Op::Cmd(self.cmd()),
+			14 => Op::DropHandle { sel: self.r.next() },
+			15 => Op::PlayProbe { len: self.r.below(40), on: if self.r.chance(1, 2) { Some(self.r.next()) } else { None } },
+			_ => self.callback(sc.ibs),
+		}
+	}
+	fn random_scene(&mut self) -> Scene {
+		let mut sc = self.header();
+		let nops = self.r.range(6, 30);
+		for _ in 0..nops {
+			let op = self.op(&sc);
+			sc.ops.push(op);
+		}
+		sc
+	}
+
+	/// directed scenarios: rare audio-thread branches that the random stream reaches too seldom
+	fn scenario(&mut self) -> Scene {
+		let mut sc = self.header();
+		sc.caps = [4, 2, 2, 3, 1];
+		sc.main_cap = 4;
+		let ibs = sc.ibs;
+		let which = self.r.below(7);
+		let short_tw = |g: &mut Gen| Tw { st: St::Immediate, dur: Duration::from_nanos(g.r.below(6) * 1_000_000_000 / sc.sr as u64), easing: Easing::Linear };
+		let cb = |g: &mut Gen, ops: &mut Vec<Op>, n: u64| {
+			for _ in 0..n {
+				let c = g.callback(ibs);
+				ops.push(c);
+			}
+		};
+		let mut ops: Vec<Op> = vec![];
+		let plain = |g: &mut Gen, n: usize, on: Option<u64>| PlaySpec { frames: FramesSpec { n, kind: *g.r.pick(&[0u8, 1, 3, 7]), seed: g.r.next() }, ssr: sc.sr, vol: g.db(), pan: g.pan(), rate: 1.0, reverse: false, looped: None, start: None, fade_in: None, start_time: St::Immediate, slice: None, on };
+		match which {
+			0 => {
+				// a sound finishes / is stopped while its track is pausing or paused
+				ops.push(Op::AddSub(SubSpec { vol: self.db(), cap: 3, sub_cap: 1, persist: self.r.chance(1, 2), fx: vec![Fx::Probe], keep_fx_handles: false, send: None, parent: None }));
+				let n = self.r.below(3 * ibs as u64 + 6) as usize;
+				if self.r.chance(1, 2) {
+					ops.push(Op::Play(plain(self, n, Some(0))));
+				} else {
+					ops.push(Op::PlayProbe { len: n as u64, on: Some(0) });
+				}
+				ops.push(Op::Callback { frames: self.r.below(4) as usize, ch: 2 });
+				let tw = short_tw(self);
+				if self.r.chance(1, 2) {
+					ops.push(Op::Cmd(CmdSpec { sel: 1, which: 2, tw: tw.clone(), ..self.cmd() })); // stop the sound
+				}
+				ops.push(Op::Cmd(CmdSpec { sel: 0, which: 0, tw, ..self.cmd() })); // pause the track
+				cb(self, &mut ops, 3);
+				if self.r.chance(1, 2) {
+					ops.push(Op::DropHandle { sel: 0 });
+				} else {
+					ops.push(Op::Cmd(CmdSpec { sel: 0, which: 1, tw: short_tw(self), ..self.cmd() }));
+				}
+				cb(self, &mut ops, 3);
+				ops.push(Op::PlayProbe { len: 2, on: None });
+				cb(self, &mut ops, 2);
+			}
+			1 => {
+				// backwards through a loop region (negative rate and / or reverse)
+				let n = self.r.below(60) as usize + 8;
+				let a = self.r.below(n as u64 / 2) as f64 / sc.sr as f64;
+				let b = a + (self.r.below(n as u64 / 2) + 1) as f64 / sc.sr as f64;
+				let mut p = plain(self, n, None);
+				p.rate = *self.r.pick(&[-1.0, -0.5, -2.0, -3.0, 1.0, 2.0, -1.0]);
+				p.reverse = self.r.chance(1, 3);
+				p.looped = Some((a, b));
+				p.start = if self.r.chance(1, 2) { Some(self.r.below(n as u64 + 2) as usize) } else { None };
+				ops.push(Op::Play(p));
+				for _ in 0..6 {
+					ops.push(Op::Callback { frames: self.r.below(2 * n as u64) as usize + 1, ch: 2 });
+					if self.r.chance(1, 3) {
+						ops.push(Op::Cmd(CmdSpec { sel: 0, which: *self.r.pick(&[4u64, 6, 7, 9]), rate: *self.r.pick(&[-1.0, 1.0, -2.5, 0.5]), tw: short_tw(self), ..self.cmd() }));
+					}
+				}
+			}
+			2 => {
+				// churn: tracks with sounds and probes come and go; creation drains the unused queues on the caller's thread
+				for k in 0..self.r.range(3, 7) {
+					ops.push(Op::AddSub(SubSpec { vol: self.db(), cap: 2, sub_cap: 2, persist: self.r.chance(1, 2), fx: vec![Fx::Probe, self.fx(false)], keep_fx_handles: false, send: None, parent: if self.r.chance(1, 3) { Some(self.r.next()) } else { None } }));
+					ops.push(Op::PlayProbe { len: self.r.below(2 * ibs as u64 + 3), on: Some(k as u64) });
+					let (pn, po) = (self.r.below(20) as usize, self.r.next());
+					let p = plain(self, pn, Some(po));
+					ops.push(Op::Play(p));
+					cb(self, &mut ops, 1);
+					if self.r.chance(2, 3) {
+						ops.push(Op::DropHandle { sel: self.r.next() });
+					}
+					cb(self, &mut ops, 1);
+				}
+				cb(self, &mut ops, 2);
+			}
+			3 => {
+				// clock-timed starts; the clock goes away before it fires (the sound will never start)
+				ops.push(Op::AddClock { speed: ClockSpeed::TicksPerSecond(sc.sr as f64 / (ibs as f64 * (1 + self.r.below(3)) as f64)), start: self.r.chance(3, 4) });
+				let mut p = plain(self, 30, None);
+				p.start_time = St::Clock { sel: 0, ticks: self.r.below(4) };
+				p.fade_in = Some(Tw { st: St::Clock { sel: 0, ticks: 1 }, dur: Duration::from_millis(1), easing: Easing::Linear });
+				ops.push(Op::Play(p));
+				ops.push(Op::PlayProbe { len: 5, on: None });
+				cb(self, &mut ops, 2);
+				ops.push(Op::Cmd(CmdSpec { sel: 1, which: 8, tw: Tw { st: St::Clock { sel: 0, ticks: 2 + self.r.below(3) }, dur: Duration::ZERO, easing: Easing::Linear }, ..self.cmd() }));
+				if self.r.chance(1, 2) {
+					ops.push(Op::DropHandle { sel: 0 });
+				}
+				cb(self, &mut ops, 4);
+				ops.push(Op::PlayProbe { len: 1, on: None });
+				cb(self, &mut ops, 2);
+			}
+			4 => {
+				// pause / resume / stop / seek with short tweens, many small callbacks
+				let n = self.r.below(200) as usize + 1;
+				let mut p = plain(self, n, None);
+				p.rate = *self.r.pick(&[1.0, 0.5, 2.0, -1.0]);
+				ops.push(Op::Play(p));
+				for _ in 0..self.r.range(6, 14) {
+					ops.push(Op::Cmd(CmdSpec { sel: 0, tw: short_tw(self), ..self.cmd() }));
+					cb(self, &mut ops, 1);
+				}
+			}
+			5 => {
+				// modulators and listeners that finish or lose their handles, linked parameters
+				ops.push(Op::AddLfo { wave: self.r.below(4) as u8, f: 2.0 + self.r.unit_f64() * 50.0, amp: 1.0, offset: 0.0, phase: 0.0 });
+				ops.push(Op::AddProbeMod { len: self.r.below(4) });
+				ops.push(Op::AddTweener { init: 0.5 });
+				ops.push(Op::AddSub(SubSpec { vol: -3.0, cap: 2, sub_cap: 1, persist: false, fx: vec![Fx::Filter { mode: FilterMode::LowPass, cutoff: 1000.0, linked: true, res: 0.2, mix: 1.0 }, Fx::Probe], keep_fx_handles: true, send: None, parent: None }));
+				let p = plain(self, 100, Some(0));
+				ops.push(Op::Play(p));
+				cb(self, &mut ops, 2);
+				ops.push(Op::DropHandle { sel: self.r.below(3) });
+				cb(self, &mut ops, 2);
+				ops.push(Op::AddProbeMod { len: 1 });
+				ops.push(Op::DropHandle { sel: 0 });
+				cb(self, &mut ops, 3);
+				ops.push(Op::AddProbeMod { len: 0 });
+				cb(self, &mut ops, 1);
+			}
 			_ => {
-				res.kind = "panic";
-				res.what = Some(format!("panic: {}", last_panic()));
+				// send tracks and routes; the send track goes away while it is still routed to
+				ops.push(Op::AddSend { vol: self.db(), probe: true });
+				ops.push(Op::AddSub(SubSpec { vol: self.db(), cap: 2, sub_cap: 1, persist: true, fx: vec![], keep_fx_handles: false, send: Some(self.db()), parent: None }));
+				let p = plain(self, 80, Some(0));
+				ops.push(Op::Play(p));
+				cb(self, &mut ops, 2);
+				ops.push(Op::DropHandle { sel: 0 });
+				cb(self, &mut ops, 2);
+				ops.push(Op::AddSend { vol: 0.0, probe: true });
+				ops.push(Op::DropHandle { sel: 0 });
+				cb(self, &mut ops, 3);
+			}
+		}
+		sc.ops = ops;
+		sc
+	}
+}
+
+fn listed_classes() -> BTreeSet<String> {
+	// read-only: which classes are listed (status known) for C01
+	let mut out = BTreeSet::new();
+	if let Ok(t) = std::fs::read_to_string("/verif/known_findings.json") {
+		// a tiny scan is enough: objects are flat; take "class" of entries with property C01 and status known
+		for obj in t.split('{').skip(1) {
+			let get = |k: &str| -> Option<String> {
+				let i = obj.find(&format!("\"{k}\""))?;
+				let rest = &obj[i + k.len() + 2..];
+				let a = rest.find('"')?;
+				let b = rest[a + 1..].find('"')?;
+				Some(rest[a + 1..a + 1 + b].to_string())
+			};
+			if get("property").as_deref() == Some("C01") && get("status").as_deref() == Some("known") {
+				if let Some(c) = get("class") {
+					out.insert(c);
+				}
 			}
 		}
 	}
-	*log_out = g.log.clone();
-	*hazards_out = g.hazards.clone();
-	res
+	out
+}
+
+// ------------------------------------------------------------------------------------------------
+// fixed witnesses of the findings (the `_refuted` theorems' inputs, replayed on the real code)
+// ------------------------------------------------------------------------------------------------
+fn base_scene(sr: u32, ibs: usize) -> Scene {
+	Scene { sr, ibs, caps: [4, 2, 2, 2, 1], main_vol: 0.0, main_cap: 4, main_fx: vec![], ops: vec![] }
+}
+fn plain_play(sr: u32, n: usize, kind: u8) -> PlaySpec {
+	PlaySpec { frames: FramesSpec { n, kind, seed: 1 }, ssr: sr, vol: 0.0, pan: 0.0, rate: 1.0, reverse: false, looped: None, start: None, fade_in: None, start_time: St::Immediate, slice: None, on: None }
+}
+fn plain_cmd() -> CmdSpec {
+	CmdSpec { sel: 0, which: 0, tw: Tw { st: St::Immediate, dur: Duration::from_millis(10), easing: Easing::Linear }, db: 0.0, rate: 1.0, pan: 0.0, u: 0.5, mixv: 0.5, speed: ClockSpeed::TicksPerSecond(2.0), freq: 1000.0, pos: [0.0; 3] }
+}
+fn corpus() -> Vec<(&'static str, &'static str, Scene)> {
+	let cb = Op::Callback { frames: 64, ch: 2 };
+	let mut v = vec![];
+	// F5: sound volume +1000 dB on a sound containing a zero sample (inf * 0)
+	let mut s = base_scene(48000, 64);
+	s.ops = vec![Op::Play(PlaySpec { vol: 1000.0, ..plain_play(48000, 100, 7) }), cb.clone()];
+	v.push((HZ_GAIN, "sound volume +1000 dB on a silent sound", s));
+	// F29: frames alternating +-3e38 at rate 1
+	let mut s = base_scene(48000, 64);
+	s.ops = vec![Op::Play(plain_play(48000, 100, 6)), cb.clone()];
+	v.push((HZ_SAMPLES, "static sound whose frames alternate +3e38 / -3e38", s));
+	// F33: compressor ratio 0 on the main track, silence
+	let mut s = base_scene(48000, 64);
+	s.main_fx = vec![Fx::Compressor { thr: -24.0, ratio: 0.0, attack: Duration::from_millis(10), release: Duration::from_millis(100), makeup: 0.0, mix: 1.0 }];
+	s.ops = vec![cb.clone()];
+	v.push((HZ_PARAM, "CompressorBuilder::new().ratio(0.0) on the main track, silence", s));
+	// proposed: easing with a negative power
+	let mut s = base_scene(48000, 64);
+	s.ops = vec![
+		Op::AddSub(SubSpec { vol: 0.0, cap: 2, sub_cap: 1, persist: false, fx: vec![], keep_fx_handles: false, send: None, parent: None }),
+		Op::Cmd(CmdSpec { sel: 0, which: 1, tw: Tw { st: St::Immediate, dur: Duration::from_secs(1), easing: Easing::InPowi(-40) }, ..plain_cmd() }),
+		cb.clone(),
+	];
+	v.push((HZ_EASING, "track.resume(Tween { duration: 1 s, easing: InPowi(-40) }) on an empty sub-track", s));
+	// proposed: two finite gains whose product overflows, panned hard left (inf * 0 on the right)
+	let mut s = base_scene(48000, 64);
+	s.main_fx = vec![Fx::Pan(-1.0)];
+	s.ops = vec![
+		Op::AddSub(SubSpec { vol: 700.0, cap: 2, sub_cap: 1, persist: false, fx: vec![], keep_fx_handles: false, send: None, parent: None }),
+		Op::Play(PlaySpec { vol: 700.0, on: Some(0), ..plain_play(48000, 100, 1) }),
+		cb.clone(),
+	];
+	v.push((HZ_CHAIN, "sound volume +700 dB on a track of volume +700 dB, hard-left panning effect on the main track", s));
+	// proposed: compressor threshold -1e300 (f32: -inf) on a non-silent signal
+	let mut s = base_scene(48000, 64);
+	s.main_fx = vec![Fx::Compressor { thr: -1e300, ratio: 2.0, attack: Duration::from_millis(10), release: Duration::from_millis(100), makeup: 0.0, mix: 1.0 }];
+	s.ops = vec![Op::Play(plain_play(48000, 100, 1)), cb.clone()];
+	v.push((HZ_COMP_THR, "CompressorBuilder::new().threshold(-1e300) on a non-silent signal", s));
+	// proposed: EQ gain -1e30 dB
+	let mut s = base_scene(48000, 64);
+	s.main_fx = vec![Fx::Eq { kind: EqFilterKind::Bell, f: 1000.0, gain: -1e30, q: 1.0 }];
+	s.ops = vec![Op::Play(plain_play(48000, 100, 1)), cb.clone()];
+	v.push((HZ_EQ_GAIN, "EqFilterBuilder::new(Bell, 1000.0, Decibels(-1e30), 1.0)", s));
+	// F7
+	let mut s = base_scene(48000, 64);
+	s.ops = vec![Op::AddClock { speed: ClockSpeed::SecondsPerTick(0.0), start: true }, cb.clone(), cb.clone()];
+	v.push((HZ_CLOCK, "add_clock(SecondsPerTick(0.0)); start; callbacks", s));
+	// F8
+	let mut s = base_scene(48000, 64);
+	s.ops = vec![Op::Play(PlaySpec { rate: 1e300, looped: Some((0.0, 0.001)), ..plain_play(48000, 100, 1) }), cb.clone()];
+	v.push((HZ_RATE, "play(sound with playback_rate 1e300 and a loop region); one callback", s));
+	// F34
+	let mut s = base_scene(1, 64);
+	s.ops = vec![Op::Play(PlaySpec { rate: 1e6, ssr: 22050, looped: Some((0.0, 0.001)), ..plain_play(22050, 100, 1) }), cb.clone()];
+	v.push((HZ_RATE_COST, "sound at 22050 Hz with playback_rate 1e6 on a 1 Hz device", s));
+	v
 }
 
 /// the output stage against the model: a static sound at unit gain on a bare main track
@@ -575,7 +1863,7 @@ fn out_stage_cases(s: &mut Session, rng: &mut Rng, count: u64) {
 		let ibs = *rng.pick(&[1usize, 2, 3, 8, 64]);
 		let frames: Vec<Frame> = (0..n)
 			.map(|_| {
-				let mut v = |r: &mut Rng| if r.chance(1, 2) { *r.pick(&vals) } else { (r.unit_f64() * 3.0 - 1.5) as f32 };
+				let v = |r: &mut Rng| if r.chance(1, 2) { *r.pick(&vals) } else { (r.unit_f64() * 3.0 - 1.5) as f32 };
 				Frame::new(v(rng), v(rng))
 			})
 			.collect();
@@ -610,129 +1898,122 @@ fn out_stage_cases(s: &mut Session, rng: &mut Rng, count: u64) {
 	}
 }
 
-/// the two known ways to make the audio thread spin for ever (F7, F8), as fixed witnesses;
-/// each runs under a watchdog on a thread that is abandoned if it does not return
-fn hang_corpus(s: &mut Session) {
-	let cases: Vec<(&str, &str, Box<dyn FnOnce() + Send>)> = vec![
-		(
-			"clock_speed_tick_loop_diverges",
-			"add_clock(SecondsPerTick(0.0)); start; one callback",
-			Box::new(|| {
-				let mut m = simple_manager(48000, 64);
-				let mut c = m.add_clock(ClockSpeed::SecondsPerTick(0.0)).unwrap();
-				c.start();
-				m.backend_mut().callback(64, 2);
-				m.backend_mut().callback(64, 2);
-			}),
-		),
-		(
-			"playback_rate_loop_diverges",
-			"play(sound with playback_rate 1e300); one callback",
-			Box::new(|| {
-				let mut m = simple_manager(48000, 64);
-				let mut d = sound_from_frames(48000, vec![Frame::new(0.5, 0.5); 100]);
-				d.settings = StaticSoundSettings::new().playback_rate(PlaybackRate(1e300)).loop_region(Region::from(..));
-				let _h = m.play(d).unwrap();
-				m.backend_mut().callback(64, 2);
-			}),
-		),
-	];
-	for (class, desc, f) in cases {
-		let (tx, rx) = mpsc::channel();
-		let _ = std::thread::Builder::new().name("hang-corpus".into()).spawn(move || {
-			f();
-			let _ = tx.send(());
-		});
-		s.eval_only("hang_corpus");
-		if rx.recv_timeout(Duration::from_secs(2)).is_err() {
-			s.fail(desc.to_string(), "the audio callback did not return within 2 s".into(), Some(class));
-		}
-	}
+fn report(s: &mut Session, label: &str, v: Verdict) {
+	let case = format!("{label}: {}{:?}", v.trail, v.scene);
+	s.count(&format!("failure_{}_{}{}{}", v.fail.kind, v.class.unwrap_or("UNATTRIBUTED"), if v.detail.is_empty() { "" } else { ": " }, v.detail));
+	s.fail(case, v.fail.what, v.class);
 }
 
 pub fn run(args: &Args) {
+	let mut listed = listed_classes();
+	if std::env::var("C01_ASSUME_LISTED").is_ok() {
+		// debugging aid: draw the triggers of the proposed (not yet listed) classes as well
+		for c in classes() {
+			listed.insert(c.name.to_string());
+		}
+	}
 	if let Ok(v) = std::env::var("C01_SCENE") {
-		// debugging aid: C01_SCENE=<hex seed>[,b] replays one scene with the default panic output
+		// debugging aid: C01_SCENE=<hex seed>,<w|b|s> replays one scene with the default panic output and an allocation trace
 		let _ = std::panic::take_hook();
 		crate::alloc::TRACE.store(true, std::sync::atomic::Ordering::Relaxed);
-		let (sd, b) = v.split_once(',').map(|(a, b)| (a.to_string(), b == "b")).unwrap_or((v.clone(), false));
+		let (sd, st) = v.split_once(',').map(|(a, b)| (a.to_string(), b.to_string())).unwrap_or((v.clone(), "w".into()));
 		let seed = u64::from_str_radix(sd.trim_start_matches("0x"), 16).unwrap();
-		let (mut log, mut hz) = (vec![], vec![]);
-		let r = run_scene(seed, b, false, &mut log, &mut hz, None);
-		println!("{r:?}\n{}", log.join("\n"));
+		let mut rng = Rng::new(seed);
+		let mut g = Gen { r: &mut rng, boundary: st == "b", listed: &listed };
+		let sc = if st == "s" { g.scenario() } else { g.random_scene() };
+		println!("{sc:#?}");
+		let r = exec_scene(&sc, false);
+		println!("{:?} callbacks {} drops {}", r.fail, r.callbacks, r.drops_seen);
 		return;
 	}
-	let mut rng = Rng::new(args.seed ^ 0xC01);
+	// (Rng::new of consecutive seeds gives the same stream shifted by one: scramble once more)
+	let mut rng = Rng::new(Rng::new(args.seed ^ 0xC01).next());
 	let n: u64 = (if args.thorough { 12_000 } else { 900 }) * args.budget_mul;
 	let mut s = Session::new(
 		"C01",
 		&args.out,
 		"From Coq Require Import ZArith List. Import ListNotations. Open Scope Z_scope.\nFrom KV Require Import Base.Corr C01.Run.",
 		"run",
-		200,
-		"scenes: an AudioManager with random capacities / internal buffer / sample rate, main-track effects, then 6-30 operations (play static sounds with drawn volume, panning, rate, loop, slice, start; add sub / send / spatial tracks with every built-in effect incl. nested delay feedback effects; clocks; LFOs and tweeners linked to parameters; listeners; random commands with random tweens; handle drops; device callbacks of 0..3b+40 frames and 1..8 channels); a well-formed stream (documented ranges) and a boundary stream (0, -0, denormals, +-1e300, -60 dB, zero/huge durations, empty/inverted regions, out-of-range slices, capacity 0); observed per callback: panic, hang (watchdog), heap allocations/frees on the audio thread, every sample finite and in [-1,1], unwritten slots, extra channels; plus output-stage cases compared bit-for-bit with the Coq model; distinct = scene seed; non-trivial = at least one callback rendered",
+		150,
+		"scenes (pure data, printed in full on failure): an AudioManager with random capacities / internal buffer / sample rate, main-track effects, then operations (play static sounds with drawn volume, panning, rate incl. negative, loop, slice, start position, fade-in, delayed / clock start; probe sounds that finish; sub / send / spatial tracks with every built-in effect incl. nested delay feedback effects; clocks; LFOs, tweeners, probe modulators linked to parameters; listeners; commands on random handles incl. effect handles with random tweens; handle drops; device callbacks of 0..3b+40 frames and 1..8 channels) in three streams: well-formed (documented ranges), boundary (0, -0, denormals, +-1e300, -60 dB, zero / huge durations, empty / inverted regions, out-of-range slices, capacity 0) and directed scenarios (finish while paused, backwards through loops, churn, clock-timed starts, short tweens, finishing modulators, vanishing send tracks); the Renderer runs on its own audio thread; observed per callback: panic, hang (watchdog), heap allocations / frees on the audio thread, thread of every probe Drop, on_start_processing count and chunk sequence, every sample written, finite, in [-1,1], extra channels silent; model cases: output stage on a unit-gain sound, output stage on the recorded mixer bus, callback step list (allocations, frees, starts, chunk lengths); distinct = scene seed; non-trivial = at least one callback rendered",
 	);
 	out_stage_cases(&mut s, &mut rng, n / 3);
-	let mut hang_budget = 2u32;
-	hang_corpus(&mut s);
-	let mut callbacks = 0u64;
-	let mut samples = 0u64;
-	for i in 0..n {
-		let seed = rng.next();
-		let boundary = i % 3 == 2;
-		let allow_hang = false;
-		let (tx, rx) = mpsc::channel::<Msg>();
-		let _ = std::thread::Builder::new().name(format!("scene-{i}")).spawn(move || {
-			let mut log = vec![];
-			let mut hz = vec![];
-			let r = run_scene(seed, boundary, allow_hang, &mut log, &mut hz, Some(tx.clone()));
-			let _ = tx.send(Msg::Done(r));
-		});
-		s.eval_only(if boundary { "scene_boundary" } else { "scene_wellformed" });
-		let deadline = std::time::Instant::now() + Duration::from_secs(if hang_budget > 0 { 8 } else { 3 });
-		let mut log: Vec<String> = vec![];
-		let mut hz: Vec<&'static str> = vec![];
-		let mut done: Option<SceneResult> = None;
-		loop {
-			let left = deadline.saturating_duration_since(std::time::Instant::now());
-			match rx.recv_timeout(left) {
-				Ok(Msg::Note(n)) => log.push(n),
-				Ok(Msg::Hazard(h)) => hz.push(h),
-				Ok(Msg::Done(r)) => {
-					done = Some(r);
-					break;
+	let mut hangs_left = 12u32 * args.budget_mul as u32;
+	let wd = 2.5;
+	// ---- witnesses of the findings
+	for (class, desc, sc) in corpus() {
+		s.eval_only("corpus");
+		let (_, f) = outcome(&sc, wd, &mut hangs_left);
+		match f {
+			Some(f) => {
+				let v = attribute(&sc, f, wd, &mut hangs_left);
+				if v.class == Some(class) && listed.contains(class) {
+					report(&mut s, &format!("witness ({desc})"), v);
+				} else if v.class == Some(class) {
+					// reproduced, attributed to its own trigger, but not listed in known_findings.json (yet)
+					s.notes.push(format!("finding not listed yet: class {class} reproduced by its witness ({desc}): {}", v.fail.what));
+					s.count("corpus_unlisted_reproduced");
+				} else {
+					report(&mut s, &format!("witness ({desc}) expected class {class}"), v);
 				}
-				Err(_) => break,
+			}
+			None => {
+				s.notes.push(format!("witness of {class} ({desc}) no longer fails"));
+				s.count("corpus_not_reproduced");
 			}
 		}
-		match done {
+	}
+	// ---- generated scenes
+	let mut callbacks = 0u64;
+	let mut samples = 0u64;
+	let mut drops = 0u64;
+	let mut model_budget: i64 = if args.thorough { 12_000 } else { 1_500 } * args.budget_mul as i64;
+	for i in 0..n {
+		let seed = rng.next();
+		let stream = if i % 10 == 9 { "s" } else if i % 3 == 2 { "b" } else { "w" };
+		let mut srng = Rng::new(seed);
+		let mut g = Gen { r: &mut srng, boundary: stream == "b", listed: &listed };
+		let sc = if stream == "s" { g.scenario() } else { g.random_scene() };
+		s.eval_only(match stream {
+			"s" => "scene_scenario",
+			"b" => "scene_boundary",
+			_ => "scene_wellformed",
+		});
+		let label = format!("scene seed {seed:#x},{stream}");
+		match run_watchdog(&sc, model_budget > 0, wd) {
 			Some(r) => {
 				callbacks += r.callbacks as u64;
 				samples += r.samples;
+				drops += r.drops_seen as u64;
 				if r.callbacks > 0 {
 					s.nontrivial.insert(format!("{seed:x}"));
 				}
-				if let Some(w) = r.what {
-					let class = match r.kind {
-						"nan" | "range" if hz.contains(&HZ_GAIN) => Some(HZ_GAIN),
-						"nan" | "range" if hz.contains(&HZ_SAMPLES) => Some(HZ_SAMPLES),
-						"nan" | "range" if hz.contains(&HZ_PARAM) => Some(HZ_PARAM),
-						_ => None,
-					};
-					s.fail(format!("scene seed {seed:#x} boundary={boundary}: {}", log.join(" ; ")), w, class);
+				for (kind, term, obs) in r.cases.iter() {
+					if model_budget > 0 {
+						model_budget -= 1;
+						s.case(kind, term.clone(), obs, None);
+					}
 				}
-				s.count(&format!("outcome_{}", if r.kind.is_empty() { "ok" } else { r.kind }));
+				match r.fail {
+					None => s.count("outcome_ok"),
+					Some(f) => {
+						s.count(&format!("outcome_{}", f.kind));
+						let v = attribute(&sc, f, wd, &mut hangs_left);
+						report(&mut s, &label, v);
+					}
+				}
 			}
 			None => {
-				// the scene thread is abandoned (it may spin for a very long time)
-				hang_budget = hang_budget.saturating_sub(1);
-				let class = if hz.contains(&HZ_RATE_COST) { Some(HZ_RATE_COST) } else { None };
-				s.fail(format!("scene seed {seed:#x} boundary={boundary}: {}", log.join(" ; ")), "a callback (or a call made on the audio path) did not return within the watchdog time".into(), class);
 				s.count("outcome_hang");
+				hangs_left = hangs_left.saturating_sub(1);
+				let f = Fail { kind: "hang", what: "a callback (or a call made on the audio path) did not return within the watchdog time".into(), at: usize::MAX };
+				let v = attribute(&sc, f, wd, &mut hangs_left);
+				report(&mut s, &label, v);
 			}
 		}
 	}
 	s.hist.insert("callbacks_rendered".into(), callbacks);
 	s.hist.insert("samples_checked".into(), samples);
+	s.hist.insert("probe_drops_observed".into(), drops);
 	s.finish();
 }
